@@ -5,8 +5,8 @@ import ast
 
 from ..core import Ctx
 from ..match import (_atoms_with_polarity, arg, call_name, calls, expr_context_facts, fact_of, facts_at, local_defs, mentions, rchain, resolve,
-                     same_resolved, stores)
-from ..model import AnalysisError, FuncInfo, ancestors, chain, const_value, enclosing_stmt, norm, parent, strip_cast, walk_no_nested
+                     same_resolved, single_def, stores)
+from ..model import AnalysisError, FuncInfo, ancestors, chain, clone, const_value, enclosing_stmt, norm, parent, strip_cast, walk_no_nested
 
 LEVEL = "other"
 EXPLANATION = (
@@ -22,7 +22,13 @@ EXPLANATION = (
     "guards (followed into private helpers of add_verified_peer), by-key pairing, removal completeness (remove_by_address "
     "looks at every verified peer on every path; remove_peer removes unless not a member; both forget the removed instance in the address and service caches, whose readers "
     "validate by equality), snapshot codec symmetry and the "
-    "closed set of external writers. LRU eviction order is not explored - a miss recomputes (checked)."
+    "closed set of external writers. LRU eviction order is not explored - a miss recomputes (checked). "
+    "Constructs are recognised by what they compute: a collection is denoted by self.<attr>, a local alias, a loop variable over a literal of "
+    "collections or getattr(self, name); guards are decided on the CFG (edges that establish the fact, the exhausted edge of a loop that checked "
+    "every element) and followed into Network's own decision helpers (every compatible return must establish the fact; bool / None / tag / tuple "
+    "results, dispatch tables denote all their values); cached values handed to a helper are followed with the parameters bound; generator helpers "
+    "are read as streams of what they yield. remove_peer must purge the address cache by scanning it (by value), not by the addresses of the Peer "
+    "object it was handed (another instance of the same identity may carry other addresses)."
 )
 
 NW = "ipv8/peerdiscovery/network.py"
@@ -121,15 +127,76 @@ def _reaching_defs(ctx: Ctx, fi: FuncInfo, name: str, site: ast.AST):
     return out
 
 
-def _entry_of_index(fi: FuncInfo, recv: ast.AST, index: str, ctx: Ctx | None = None) -> bool:
-    """recv is an entry stored in self.<index>: self.<index>.get(k) / self.<index>[k] itself, or a local bound to such an expression"""
+def _entry_of_index(fi: FuncInfo, recv: ast.AST, index: str, ctx: Ctx | None = None, loops: bool = False) -> bool:
+    """recv is an entry stored in self.<index>: self.<index>.get(k) / self.<index>[k] itself, a local bound to such an expression, or
+    (loops=True) a loop variable ranging over the stored entries (self.<index>.values(), or what a generator method of Network yields
+    out of it)"""
     recv = strip_cast(recv)
     if isinstance(recv, ast.Name):
-        defs = _reaching_defs(ctx, fi, recv.id, recv) if ctx is not None else local_defs(fi, recv.id)
-        return any(v is not None and mentions(v, f"self.{index}") and not _fresh(fi, v) for _, v, _i in defs)
+        defs = _reaching_defs(ctx, fi, recv.id, recv) if ctx is not None and getattr(recv, "_parent", None) is not None else local_defs(fi, recv.id)
+        if any(v is not None and mentions(v, f"self.{index}") and not _fresh(fi, v) for _, v, _i in defs):
+            return True
+        return loops and any(v is None and isinstance(st, (ast.For, ast.AsyncFor)) and _loop_var_is_entry(fi, st, recv.id, index, ctx) for st, v, _i in defs)
     if chain(recv) == f"self.{index}":
         return False
     return mentions(recv, f"self.{index}") and not _fresh(fi, recv)
+
+
+def _loop_var_is_entry(fi: FuncInfo, loop: ast.AST, name: str, index: str, ctx: Ctx | None) -> bool:
+    t = loop.target
+    it = _unwrap(loop.iter)
+    if isinstance(t, ast.Name) and t.id == name:
+        return _yields_entries(fi, it, index, ctx)
+    # for key, entry in self.<index>.items()
+    return isinstance(t, (ast.Tuple, ast.List)) and len(t.elts) == 2 and _is_name(t.elts[1], name) and isinstance(it, ast.Call) \
+        and isinstance(it.func, ast.Attribute) and it.func.attr == "items" and chain(it.func.value) == f"self.{index}"
+
+
+def _yield_sites(fi: FuncInfo, it: ast.AST, index: str, ctx: Ctx | None, depth: int = 2) -> list[tuple[FuncInfo, ast.AST, ast.AST]] | None:
+    """
+    The iterable `it` of fi hands out entries stored in self.<index> that one of Network's generator methods yields:
+    [(method, yield node, yielded expression)], or None when it is not (only) that.
+    """
+    it = _unwrap(it)
+    if not isinstance(it, ast.Call) or depth <= 0 or fi.cls is None:
+        return None
+    ts = _call_targets(fi.cls, fi, it)
+    if not ts:
+        return None
+    out = []
+    for t in ts:
+        ys = [n for n in walk_no_nested(t.node) if isinstance(n, (ast.Yield, ast.YieldFrom))]
+        if not ys or any(isinstance(n, ast.Return) and n.value is not None for n in walk_no_nested(t.node)):
+            return None
+        for y in ys:
+            if isinstance(y, ast.YieldFrom):
+                inner = _yield_sites(t, y.value, index, ctx, depth - 1)
+                if inner is None:
+                    if not _yields_entries(t, y.value, index, ctx, depth - 1):
+                        return None
+                    continue
+                out += inner
+            elif y.value is None or not _entry_of_index(t, y.value, index, ctx):
+                return None
+            else:
+                out.append((t, y, y.value))
+    return out
+
+
+def _yields_entries(fi: FuncInfo, it: ast.AST, index: str, ctx: Ctx | None, depth: int = 2) -> bool:
+    """the elements of the iterable are entries stored in self.<index>"""
+    it = _unwrap(it)
+    if isinstance(it, ast.Call) and isinstance(it.func, ast.Attribute) and it.func.attr == "values" and chain(it.func.value) == f"self.{index}":
+        return True
+    if isinstance(it, (ast.ListComp, ast.SetComp, ast.GeneratorExp)):
+        elt = strip_cast(it.elt)
+        if isinstance(elt, ast.Name):
+            return any(isinstance(g.target, ast.Name) and g.target.id == elt.id and _yields_entries(fi, g.iter, index, ctx, depth) for g in it.generators)
+        return mentions(elt, f"self.{index}") and not _fresh(fi, elt)
+    if isinstance(it, ast.Name) and it.id not in fi.params() and depth > 0:
+        vals = _bound_values(fi, it)
+        return bool(vals) and all(v is not None and _yields_entries(fi, v, index, ctx, depth - 1) for v in vals)
+    return _yield_sites(fi, it, index, ctx, depth) is not None
 
 
 def _alias_mutations(fi: FuncInfo):
@@ -159,65 +226,94 @@ def _alias_mutations(fi: FuncInfo):
     return out
 
 
+_ADD_OPS = ("add", "update", "setdefault", "__setitem__", "set[]", "aug[]")
+_REMOVE_OPS = ("remove", "discard", "pop", "clear", "popitem", "difference_update", "intersection_update", "symmetric_difference_update", "__delitem__",
+               "del[]", "del")
+
+
+def _added_entries(fi: FuncInfo, n: ast.AST, op: str) -> list[ast.AST] | None:
+    """the value expressions a dict mutation may store (None: not syntactically known)"""
+    def of_mapping(m):
+        m = _unwrap(resolve(fi, m)) if m is not None else None
+        if isinstance(m, ast.Dict) and all(k is not None for k in m.keys):
+            return list(m.values)
+        if isinstance(m, ast.DictComp):
+            return [m.value]
+        if isinstance(m, ast.Call) and (chain(m.func) or "").endswith("dict.fromkeys") and len(m.args) == 2:
+            return [m.args[1]]
+        return None
+    if op == "set[]" and isinstance(n, (ast.Assign, ast.AnnAssign)):
+        return [n.value] if n.value is not None else None
+    if op in ("setdefault", "__setitem__") and isinstance(n, ast.Call):
+        v = arg(n, 1, "default" if op == "setdefault" else "value")
+        return [v] if v is not None else None
+    if op == "update" and isinstance(n, ast.Call) and len(n.args) == 1 and not n.keywords:
+        return of_mapping(n.args[0])
+    if op == "aug" and isinstance(n, ast.AugAssign) and isinstance(n.op, ast.BitOr):
+        return of_mapping(n.value)
+    return None
+
+
 def mutation_sites(ctx: Ctx):
-    """(function, collection, kind, node) for every mutation of an authoritative collection in network.py."""
+    """(function, collection, kind, node) for every mutation of an authoritative collection in network.py (direct, through a local
+    alias of the collection, or through a variable ranging over a literal of collections)."""
     net = ctx.repo.cls("Network", NW)
     out = []
     for fi in [f for f in ctx.repo.module(NW).all_functions if f.cls is net]:
-        for n in walk_no_nested(fi.node):
-            if isinstance(n, ast.Call) and isinstance(n.func, ast.Attribute):
-                base = chain(n.func.value)
-                for a in AUTH:
-                    if base == f"self.{a}":
-                        m = n.func.attr
-                        if m in ("add", "update", "setdefault", "__setitem__"):
-                            out.append((fi, a, "add", n))
-                        elif m in ("remove", "discard", "pop", "clear", "popitem", "difference_update", "intersection_update"):
-                            out.append((fi, a, "remove", n))
-            if isinstance(n, (ast.Assign, ast.AugAssign, ast.AnnAssign)):
-                tgts = n.targets if isinstance(n, ast.Assign) else [n.target]
-                for t in tgts:
-                    for a in AUTH:
-                        if chain(t) == f"self.{a}" and fi.name != "__init__":
-                            out.append((fi, a, "remove", n))      # rebinding: may drop members
-                        if chain(t) == f"self.{a}[]":
-                            if a == "_all_addresses" and isinstance(n, ast.Assign):
-                                # WalkableAddress(b"", ...) names no introducer: irrelevant for the intro cache
-                                wa = _wa_args(fi, n.value)
-                                neutral = wa is not None and wa[0] is not None and const_value(resolve(fi, wa[0])) == b""
-                                out.append((fi, a, "add-neutral" if neutral else "add", n))
-                            else:
-                                out.append((fi, a, "add", n))
-            if isinstance(n, ast.Delete):
-                for t in n.targets:
-                    for a in AUTH:
-                        if chain(t) in (f"self.{a}[]", f"self.{a}"):
-                            out.append((fi, a, "remove", n))
+        for a in AUTH:
+            for n, op, recv, key in _coll_ops(fi, a):
+                kind = None
+                if op in _ADD_OPS or (op == "aug" and isinstance(n.op, ast.BitOr)):
+                    kind = "add"
+                    if a == "_all_addresses":
+                        # WalkableAddress(b"", ...) names no introducer: irrelevant for the intro cache
+                        vals = _added_entries(fi, n, op)
+                        if vals and all(_blank_introducer(fi, v) for v in vals):
+                            kind = "add-neutral"
+                elif op in _REMOVE_OPS or op == "aug":
+                    kind = "remove"
+                elif op == "rebind" and fi.name != "__init__":
+                    kind = "remove"      # rebinding: may drop members
+                if kind is not None:
+                    out.append((fi, a, kind, n))
     return out
+
+
+def _blank_introducer(fi: FuncInfo, v: ast.AST) -> bool:
+    wa = _wa_args(fi, v)
+    return wa is not None and wa[0] is not None and const_value(resolve(fi, wa[0])) == b""
+
+
+_INDEX_WRITES = ("pop", "clear", "popitem", "remove", "append", "update", "__setitem__", "__delitem__", "setdefault", "set[]", "aug[]", "del[]", "rebind", "aug", "del")
 
 
 def _updates_index(ctx: Ctx, fi: FuncInfo, index: str, depth: int = 2) -> bool:
     """Does fi (or a Network helper it calls) write the derived index?"""
+    if any(op in _INDEX_WRITES for _n, op, _r, _k in _coll_ops(fi, index)):
+        return True
     for n in walk_no_nested(fi.node):
-        if isinstance(n, ast.Call) and isinstance(n.func, ast.Attribute) and chain(n.func.value) == f"self.{index}" \
-                and n.func.attr in ("pop", "clear", "popitem", "remove", "append", "update", "__setitem__"):
-            return True
-        if isinstance(n, (ast.Assign, ast.AugAssign, ast.Delete)):
-            for t in (n.targets if isinstance(n, (ast.Assign, ast.Delete)) else [n.target]):
-                if chain(t) in (f"self.{index}[]", f"self.{index}"):
-                    return True
         if isinstance(n, ast.Call) and isinstance(n.func, ast.Attribute) and n.func.attr in ("append", "remove", "extend", "insert", "add", "discard", "pop", "clear") \
-                and _entry_of_index(fi, n.func.value, index, ctx):
-            # a cached list reached through a local / an expression: cache = self.<index>.get(k); cache.append(x)
+                and _entry_of_index(fi, n.func.value, index, ctx, loops=n.func.attr in ("append", "extend", "insert", "add")):
+            # a cached list reached through a local / an expression: cache = self.<index>.get(k); cache.append(x) - or handed out by a
+            # generator helper the mutator loops over (growth only: purging the removed peer by value is rule_removal's business, and
+            # the cure for stale members the matrix relies on is the validating reader)
             return True
     if depth > 0 and fi.cls is not None:
         for c in calls(fi):
-            ch = chain(c.func) or ""
-            if ch.startswith("self.") and ch.count(".") == 1:
-                t = fi.cls.methods.get(call_name(c))
-                if t is not None and t.node is not fi.node and t.name not in ("add_verified_peer",) and _updates_index(ctx, t, index, depth - 1):
+            for t in _call_targets(fi.cls, fi, c):
+                if t.name not in ("add_verified_peer",) and _updates_index(ctx, t, index, depth - 1):
                     return True
     return False
+
+
+def _callers_update(ctx: Ctx, fi: FuncInfo, index: str, depth: int = 2) -> bool:
+    """fi is a private helper (the mutation was moved out of the mutator): every function that uses it writes the derived index"""
+    if depth <= 0 or fi.cls is None or not _is_private(fi):
+        return False
+    sites = _internal_call_sites(ctx, fi.cls, fi)
+    if not sites:
+        return False
+    return all(_updates_index(ctx, caller, index) or _callers_update(ctx, caller, index, depth - 1) for caller, _c in sites)
 
 
 # ------------------------------------------------------------------------------------------------------------------
@@ -295,6 +391,625 @@ def _value_positions(e: ast.AST) -> list[ast.AST]:
     return [e]
 
 
+# ------------------------------------------------------------------------------------------------------------------
+# which stored collection does a receiver expression denote: self.<coll> itself, a local alias of it (ALL definitions), a loop /
+# comprehension variable that ranges over a literal tuple of collections (`for m in (self.a, self.b): m.pop(k, None)` - the variable
+# denotes the set of the literal's values), or getattr(self, "<name>") with a constant / literal-ranged name
+
+_COMPS = (ast.ListComp, ast.SetComp, ast.GeneratorExp, ast.DictComp)
+
+
+def _loop_values(fi: FuncInfo, target: ast.AST, it: ast.AST, name: str) -> list[ast.AST]:
+    """the expressions `name` is bound to by `for <target> in <it>` when <it> is a literal tuple / list / set (also behind a local)"""
+    it = _unwrap(resolve(fi, it))
+    if not isinstance(it, (ast.Tuple, ast.List, ast.Set)):
+        return []
+    if isinstance(target, ast.Name):
+        return list(it.elts) if target.id == name else []
+    if isinstance(target, (ast.Tuple, ast.List)):
+        for i, te in enumerate(target.elts):
+            if isinstance(te, ast.Name) and te.id == name:
+                return [x.elts[i] for x in it.elts if isinstance(x, (ast.Tuple, ast.List)) and len(x.elts) == len(target.elts)]
+    return []
+
+
+def _bound_values(fi: FuncInfo, e: ast.Name) -> list[ast.AST | None]:
+    """every expression the local e may be bound to (None: a binding whose value is not syntactically known)"""
+    out: list[ast.AST | None] = []
+    for st, v, idx in local_defs(fi, e.id):
+        if v is not None and idx is None:
+            out.append(v)
+        elif v is None and isinstance(st, (ast.For, ast.AsyncFor)):
+            vals = _loop_values(fi, st.target, st.iter, e.id)
+            out += vals if vals else [None]
+        else:
+            out.append(None)
+    for a_ in ancestors(e):
+        if isinstance(a_, _COMPS):
+            for g in a_.generators:
+                if any(isinstance(x, ast.Name) and x.id == e.id for x in ast.walk(g.target)):
+                    vals = _loop_values(fi, g.target, g.iter, e.id)
+                    out += vals if vals else [None]
+        if a_ is fi.node:
+            break
+    return out
+
+
+def _const_strings(fi: FuncInfo, e: ast.AST) -> list[str]:
+    e = strip_cast(e)
+    c = const_value(resolve(fi, e))
+    if isinstance(c, str):
+        return [c]
+    if isinstance(e, ast.Name) and e.id not in fi.params():
+        vals = [const_value(v) if v is not None else None for v in _bound_values(fi, e)]
+        return [v for v in vals if isinstance(v, str)]
+    return []
+
+
+def _denotes(fi: FuncInfo, e: ast.AST, depth: int = 3) -> set[str]:
+    """the `self.<attr>` objects the value of e may BE (not a copy, not an element)"""
+    e = strip_cast(e)
+    if isinstance(e, ast.Attribute):
+        return {"self." + e.attr} if isinstance(e.value, ast.Name) and e.value.id == "self" else set()
+    if isinstance(e, ast.Call):
+        if chain(e.func) == "getattr" and len(e.args) >= 2 and _is_name(e.args[0], "self"):
+            return {"self." + s for s in _const_strings(fi, e.args[1])}
+        return set()
+    if isinstance(e, (ast.IfExp, ast.BoolOp, ast.NamedExpr)):
+        return {d for p_ in _value_positions(e) if p_ is not e for d in _denotes(fi, p_, depth)}
+    if isinstance(e, ast.Name) and depth > 0 and e.id != "self" and e.id not in fi.params():
+        return {d for v in _bound_values(fi, e) if v is not None for d in _denotes(fi, v, depth - 1)}
+    return set()
+
+
+def _coll_ops(fi: FuncInfo, coll: str) -> list[tuple[ast.AST, str, ast.AST, ast.AST | None]]:
+    """
+    (node, op, receiver, key) for every operation applied to self.<coll> in fi - spelled directly, through a local alias or through a
+    variable ranging over a literal of collections.  op is the method name for calls; "set[]" / "aug[]" / "del[]" for subscript targets;
+    "rebind" / "aug" / "del" for the attribute itself.  key: first argument / subscript.
+    """
+    want = "self." + coll
+    out = []
+    for n in walk_no_nested(fi.node):
+        if isinstance(n, ast.Call) and isinstance(n.func, ast.Attribute):
+            if want in _denotes(fi, n.func.value):
+                out.append((n, n.func.attr, n.func.value, arg(n, 0)))
+        elif isinstance(n, (ast.Assign, ast.AugAssign, ast.AnnAssign, ast.Delete)):
+            tgts = n.targets if isinstance(n, (ast.Assign, ast.Delete)) else [n.target]
+            kind = "del" if isinstance(n, ast.Delete) else "aug" if isinstance(n, ast.AugAssign) else "set"
+            for t0 in tgts:
+                for t in (t0.elts if isinstance(t0, (ast.Tuple, ast.List)) else [t0]):
+                    if isinstance(t, ast.Subscript) and want in _denotes(fi, t.value):
+                        out.append((n, kind + "[]", t.value, t.slice))
+                    elif isinstance(t, ast.Attribute) and chain(t) == want and (kind != "set" or not isinstance(n, ast.AnnAssign) or n.value is not None):
+                        out.append((n, "rebind" if kind == "set" else kind, t, None))
+    return out
+
+
+def _loop_binding(fi: FuncInfo, recv: ast.AST):
+    """the `for` statement over a literal whose variable is the receiver `recv` - or names it: getattr(self, <variable>) - and the only
+    definition of that local, else None"""
+    recv = strip_cast(recv)
+    if isinstance(recv, ast.Call) and chain(recv.func) == "getattr" and len(recv.args) >= 2 and _is_name(recv.args[0], "self"):
+        recv = strip_cast(recv.args[1])
+    if not isinstance(recv, ast.Name):
+        return None
+    defs = local_defs(fi, recv.id)
+    if len(defs) == 1 and defs[0][1] is None and isinstance(defs[0][0], (ast.For, ast.AsyncFor)) and _loop_values(fi, defs[0][0].target, defs[0][0].iter, recv.id):
+        return defs[0][0]
+    return None
+
+
+def _must_op_nodes(ctx: Ctx, fi: FuncInfo, coll: str, want, skip_edge=None) -> list:
+    """
+    CFG nodes of fi at which an operation accepted by want(node, op, receiver, key) is CERTAINLY applied to self.<coll>: the operation
+    node itself when its receiver can only be that collection; the head of a loop over a non-empty literal of collections that contains
+    it when every iteration performs the operation on the loop variable (or takes a condition outcome accepted by skip_edge: nothing to
+    do for this collection) and the loop always runs to exhaustion.
+    """
+    cfg = ctx.cfg(fi)
+    out = []
+    for n, op, recv, key in _coll_ops(fi, coll):
+        if not want(n, op, recv, key):
+            continue
+        if _denotes(fi, recv) == {"self." + coll}:
+            out += cfg.nodes_for(n)
+            continue
+        loop = _loop_binding(fi, recv)
+        if loop is not None and _every_iteration(cfg, loop, cfg.nodes_for(n), skip_edge) and _exhaustive(cfg, loop):
+            out += [h for h in cfg.nodes_for(loop) if h.kind == "loop"]
+    return out
+
+
+# ------------------------------------------------------------------------------------------------------------------
+# calls of Network's own methods: direct (`self._h(..)`), through a local bound to a method, or picked from a literal dispatch table
+# (dict / tuple literal, subscripted or .get()) - a callable picked from a table denotes the set of the table's values
+
+def _callable_names(fi: FuncInfo, e: ast.AST, depth: int = 3) -> list[str] | None:
+    """names of the `self.<method>` callables the expression may evaluate to; None when some alternative is not of that form"""
+    e = strip_cast(e)
+    if isinstance(e, ast.Attribute):
+        return [e.attr] if isinstance(e.value, ast.Name) and e.value.id == "self" else None
+    if depth <= 0:
+        return None
+    alts: list[ast.AST | None]
+    if isinstance(e, (ast.IfExp, ast.BoolOp, ast.NamedExpr)):
+        alts = [p_ for p_ in _value_positions(e) if p_ is not e]
+    elif isinstance(e, ast.Name) and e.id not in fi.params():
+        alts = _bound_values(fi, e)
+    elif isinstance(e, ast.Subscript):
+        table = _unwrap(resolve(fi, e.value))
+        if isinstance(table, ast.Dict):
+            alts = list(table.values)
+        elif isinstance(table, (ast.Tuple, ast.List)):
+            alts = list(table.elts)
+        else:
+            return None
+    elif isinstance(e, ast.Call) and isinstance(e.func, ast.Attribute) and e.func.attr == "get" and isinstance(_unwrap(resolve(fi, e.func.value)), ast.Dict):
+        alts = list(_unwrap(resolve(fi, e.func.value)).values) + [a_ for a_ in e.args[1:2] if const_value(a_) is not None]
+    elif isinstance(e, ast.Call) and chain(e.func) == "getattr" and len(e.args) >= 2 and _is_name(e.args[0], "self"):
+        names = _const_strings(fi, e.args[1])
+        return names or None
+    else:
+        return None
+    out: list[str] = []
+    for a_ in alts:
+        if a_ is not None and const_value(strip_cast(a_)) is None:
+            continue        # `None` in a dispatch table: "nothing to call" (the caller tests for it)
+        r = _callable_names(fi, a_, depth - 1) if a_ is not None else None
+        if r is None:
+            return None
+        out += r
+    return out or None
+
+
+def _call_targets(net, fi: FuncInfo, call: ast.Call) -> list[FuncInfo]:
+    """the methods of Network a call may run (empty: not a call of Network's own methods / not resolvable)"""
+    if isinstance(call.func, ast.Attribute) and not (isinstance(call.func.value, ast.Name) and call.func.value.id == "self"):
+        return []
+    names = _callable_names(fi, call.func)
+    if not names:
+        return []
+    ts = [net.methods.get(nm) for nm in names]
+    return [] if any(t is None for t in ts) else [t for t in dict.fromkeys(ts) if t.node is not fi.node]
+
+
+def _params_of(t: FuncInfo) -> list[str]:
+    """the parameters that call arguments bind to (without self / cls)"""
+    return t.params() if "staticmethod" in t.decorator_names() else t.params()[1:]
+
+
+def _is_private(fi: FuncInfo) -> bool:
+    return fi.name.startswith("_") and not fi.name.startswith("__")
+
+
+def _bind(fi: FuncInfo, call: ast.Call, t: FuncInfo, who: ast.AST | None) -> ast.AST | None:
+    """the caller's expression `who`, seen from inside the called method t: the parameter it is passed as (a Name), or None"""
+    if who is None:
+        return None
+    params = _params_of(t)
+    for i, a_ in enumerate(call.args):
+        if i < len(params) and not isinstance(a_, ast.Starred) and same_resolved(fi, a_, who):
+            return ast.Name(id=params[i], ctx=ast.Load())
+    for k in call.keywords:
+        if k.arg and same_resolved(fi, k.value, who):
+            return ast.Name(id=k.arg, ctx=ast.Load())
+    return None
+
+
+def _arg_for(call: ast.Call, t: FuncInfo, param: str) -> ast.AST | None:
+    """the argument expression a call passes for parameter `param` of method t"""
+    params = _params_of(t)
+    if param in params and params.index(param) < len(call.args) and not any(isinstance(a_, ast.Starred) for a_ in call.args):
+        return call.args[params.index(param)]
+    for k in call.keywords:
+        if k.arg == param:
+            return k.value
+    return None
+
+
+def _unbind(fi: FuncInfo, call: ast.Call, t: FuncInfo, inner: ast.AST | None) -> ast.AST | None:
+    """an expression of the called method t that is (an alias of) one of its parameters, seen from the caller: the argument expression"""
+    if inner is None:
+        return None
+    r = resolve(t, inner)
+    if isinstance(r, ast.Name) and r.id in t.params():
+        return _arg_for(call, t, r.id)
+    return None
+
+
+def _internal_call_sites(ctx: Ctx, net, t: FuncInfo) -> list[tuple[FuncInfo, ast.Call]] | None:
+    """(caller, call) for every use of Network method t; None when t is referenced from outside Network or other than by a resolvable call"""
+    memo = ctx.__dict__.setdefault("_c12_call_sites", {})
+    if id(t.node) not in memo:
+        memo[id(t.node)] = _internal_call_sites_uncached(ctx, net, t)
+    return memo[id(t.node)]
+
+
+def _internal_call_sites_uncached(ctx: Ctx, net, t: FuncInfo) -> list[tuple[FuncInfo, ast.Call]] | None:
+    out = []
+    called = set()
+    for fi in net.methods.values():
+        for c in calls(fi):
+            if t in _call_targets(net, fi, c):
+                out.append((fi, c))
+                called.add(id(c.func))
+                called |= {id(x) for x in ast.walk(c.func)}
+    for m, fi, a in ctx.repo.attribute_uses(t.name):
+        on_self = isinstance(a.value, ast.Name) and a.value.id == "self"
+        if fi is not None and fi.cls is net:
+            # a reference that is not itself the callee (a dispatch-table value): fine when some call in the same function resolves to t
+            if not on_self or (id(a) not in called and not any(f is fi for f, _c in out)):
+                return None
+            continue
+        if on_self or "network" not in (chain(a.value) or "network").lower():
+            continue        # an attribute of the same name on another object (self.<name> of another class, <not a network>.<name>)
+        return None
+    return out
+
+
+# ------------------------------------------------------------------------------------------------------------------
+# "every way of reaching this site establishes R": decided on the CFG by cutting the edges that establish R (condition outcomes, the
+# exhausted-edge of a loop that checked every element); a condition on the RESULT of one of Network's own methods (decision helper:
+# bool / None / tag / tuple element) establishes R when every `return` of that helper that is compatible with the outcome does.
+
+def _cases(e: ast.AST, pol: bool, limit: int = 24) -> list[list]:
+    """the ways e can be truthy (pol) / falsy: a list of alternatives, each a list of atom facts that then hold"""
+    e = strip_cast(e)
+    c = const_value(e)
+    if _is_const(c):
+        return [[]] if bool(c) == pol else []
+    if isinstance(e, ast.UnaryOp) and isinstance(e.op, ast.Not):
+        return _cases(e.operand, not pol, limit)
+    if isinstance(e, ast.BoolOp):
+        if isinstance(e.op, ast.And) == pol:        # every operand has the polarity
+            out = [[]]
+            for v in e.values:
+                out = [a_ + b_ for a_ in out for b_ in _cases(v, pol, limit)]
+                if len(out) > limit:
+                    return [[]]
+            return out
+        return [c_ for v in e.values for c_ in _cases(v, pol, limit)]
+    if isinstance(e, ast.IfExp):
+        return [t_ + b_ for t_ in _cases(e.test, True, limit) for b_ in _cases(e.body, pol, limit)] + \
+               [t_ + b_ for t_ in _cases(e.test, False, limit) for b_ in _cases(e.orelse, pol, limit)]
+    return [[fact_of(e, pol)]]
+
+
+def _result_test(f):
+    """fact f is a test of one value: (subject expression, accept(constant) -> bool, 'truthy' | 'falsy' | None)"""
+    if isinstance(f.left, (ast.For, ast.AsyncFor, ast.While)):
+        return None
+    if f.op == "truthy":
+        left, pos = f.left, f.pos
+        while isinstance(left, ast.UnaryOp) and isinstance(left.op, ast.Not):
+            left, pos = left.operand, not pos
+        return left, (lambda c, pos=pos: bool(c) == pos), "truthy" if pos else "falsy"
+    if f.op == "is" and const_value(f.right) is None:
+        return f.left, (lambda c, pos=f.pos: (c is None) == pos), None
+    if f.op == "eq":
+        for a_, b_ in ((f.left, f.right), (f.right, f.left)):
+            cv = const_value(b_)
+            if _is_const(cv):
+                return a_, (lambda c, pos=f.pos, cv=cv: (c == cv) == pos), None
+    if f.op == "in" and isinstance(strip_cast(f.right), (ast.Tuple, ast.List, ast.Set)):
+        vals = [const_value(x) for x in strip_cast(f.right).elts]
+        if all(_is_const(v) for v in vals):
+            return f.left, (lambda c, pos=f.pos, vals=vals: (c in vals) == pos), None
+    return None
+
+
+def _is_const(v) -> bool:
+    return v is None or isinstance(v, (bool, int, float, str, bytes, tuple))
+
+
+def _subject_calls(fi: FuncInfo, subj: ast.AST, depth: int = 3) -> list[tuple[ast.Call, int | None]] | None:
+    """the calls whose result (or whose result's element i) the subject expression is, over ALL its definitions; None when it may be something else"""
+    subj = strip_cast(subj)
+    if isinstance(subj, ast.NamedExpr):
+        subj = strip_cast(subj.value)
+    if isinstance(subj, ast.Await):
+        subj = strip_cast(subj.value)
+    if isinstance(subj, ast.Call):
+        return [(subj, None)]
+    if isinstance(subj, ast.Subscript) and isinstance(const_value(subj.slice), int):
+        inner = _subject_calls(fi, subj.value, depth)
+        return None if inner is None or any(i is not None for _c, i in inner) else [(c, const_value(subj.slice)) for c, _i in inner]
+    if isinstance(subj, ast.Name) and depth > 0 and subj.id not in fi.params():
+        out = []
+        defs = local_defs(fi, subj.id)
+        for _st, v, idx in defs:
+            if v is None:
+                return None
+            inner = _subject_calls(fi, v, depth - 1)
+            if inner is None or (idx is not None and any(i is not None for _c, i in inner)):
+                return None
+            out += [(c, idx if idx is not None else i) for c, i in inner]
+        return out or None
+    return None
+
+
+def _guarded(ctx: Ctx, net, fi: FuncInfo, site, who, edge_ok, depth: int = 2, extra=()) -> bool:
+    """every path from fi's entry to `site` takes an edge that establishes the requirement (edge_ok(fi, fact, who)), possibly decided by a helper"""
+    cfg = ctx.cfg(fi)
+    memo: dict = {}
+
+    def est(f) -> bool:
+        k = (id(f.atom), f.pos)
+        if k not in memo:
+            memo[k] = False         # recursion guard
+            try:
+                memo[k] = bool(edge_ok(fi, f, who))
+            except AnalysisError:
+                raise
+            except Exception:  # noqa: BLE001
+                memo[k] = False
+            if not memo[k] and depth > 0:
+                memo[k] = _decided_by_helper(ctx, net, fi, f, who, edge_ok, depth - 1)
+        return memo[k]
+    if any(est(f) for f in extra):
+        return True
+    if isinstance(site, ast.AST):
+        if any(est(f) for f in expr_context_facts(site)):
+            return True
+        nodes = cfg.nodes_for(site)
+    else:
+        nodes = [site]
+    if not nodes:
+        raise AnalysisError(f"undecided: no control-flow node for `{norm(site)[:60]}` in {fi.qualname}")
+
+    def cut(u, v, lab):
+        return u.kind in ("cond", "loop") and lab in (True, False) and u.ast is not None and est(fact_of(u.ast, lab))
+    r = cfg.reach(cut_edge=cut)
+    return not any(n in r for n in nodes)
+
+
+def _decided_by_helper(ctx: Ctx, net, fi: FuncInfo, f, who, edge_ok, depth: int) -> bool:
+    """fact f tests the result of one of Network's own methods, and every `return` of it that is compatible with f establishes the requirement"""
+    rt = _result_test(f)
+    if rt is None:
+        return False
+    subj, accept, mode = rt
+    subjects = _subject_calls(fi, subj)
+    if not subjects:
+        return False
+    for call, idx in subjects:
+        targets = _call_targets(net, fi, call)
+        if not targets:
+            return False
+        for t in targets:
+            if not _returns_establish(ctx, net, t, idx, accept, mode, _bind(fi, call, t, who), edge_ok, depth):
+                return False
+    return True
+
+
+def _compatible_returns(t: FuncInfo, idx, accept, mode) -> list[tuple[ast.Return, list[list]]]:
+    """(return statement, alternatives) for every `return` of t whose value (element idx of it) may be compatible with the tested
+    outcome; each alternative is the list of atom facts that hold when the returned expression has the outcome"""
+    out = []
+    for r in [n for n in walk_no_nested(t.node) if isinstance(n, ast.Return)]:
+        v = r.value
+        known = True
+        if idx is not None:
+            tv = strip_cast(v) if v is not None else None
+            if isinstance(tv, ast.Tuple) and idx < len(tv.elts) and not any(isinstance(x, ast.Starred) for x in tv.elts):
+                v = tv.elts[idx]
+            else:
+                known = False
+        cases: list[list] = [[]]
+        if known:
+            c = None if v is None else const_value(strip_cast(v))
+            if _is_const(c):
+                if not accept(c):
+                    continue
+            elif mode is not None:
+                cases = _cases(v, mode == "truthy")
+        out.append((r, cases))
+    return out
+
+
+def _falls_off_end(ctx: Ctx, t: FuncInfo, cut_edge=None) -> bool:
+    """the end of t's body can be reached without a `return` (the call then yields None)"""
+    cfg = ctx.cfg(t)
+    rets = [n for r in walk_no_nested(t.node) if isinstance(r, ast.Return) for n in cfg.nodes_for(r)]
+    return cfg.exit in cfg.reach(cut_nodes=rets, cut_edge=cut_edge, follow_exc=False)
+
+
+def _returns_establish(ctx: Ctx, net, t: FuncInfo, idx, accept, mode, who, edge_ok, depth: int) -> bool:
+    if any(isinstance(n, (ast.Yield, ast.YieldFrom)) for n in walk_no_nested(t.node)):
+        return False
+    for r, cases in _compatible_returns(t, idx, accept, mode):
+        for case in cases:
+            if not _guarded(ctx, net, t, r, who, edge_ok, depth, extra=case):
+                return False
+    if idx is None and accept(None):
+        # falling off the end returns None, which is compatible with the outcome: the end must not be reachable around the requirement
+        memo: dict = {}
+
+        def cut(u, v, lab):
+            if not (u.kind in ("cond", "loop") and lab in (True, False) and u.ast is not None):
+                return False
+            f = fact_of(u.ast, lab)
+            k = (id(f.atom), f.pos)
+            if k not in memo:
+                try:
+                    memo[k] = bool(edge_ok(t, f, who))
+                except AnalysisError:
+                    raise
+                except Exception:  # noqa: BLE001
+                    memo[k] = False
+            return memo[k]
+        if _falls_off_end(ctx, t, cut):
+            return False
+    return True
+
+
+class _SubstNames(ast.NodeTransformer):
+    def __init__(self, mapping: dict[str, ast.AST]) -> None:
+        self.mapping = mapping
+
+    def visit_Name(self, n: ast.Name):
+        return clone(self.mapping[n.id]) if n.id in self.mapping and isinstance(n.ctx, ast.Load) else n
+
+
+def _translate(t: FuncInfo, expr: ast.AST, binding: dict[str, ast.AST], depth: int = 3) -> ast.AST | None:
+    """an expression of method t in the caller's terms: pure single-assignment locals expanded, parameters replaced by the arguments;
+    None when it depends on anything else that is local to t"""
+    e = clone(expr)
+    own = {n.id for n in ast.walk(e) if isinstance(n, ast.Name) and isinstance(n.ctx, ast.Store)}
+    params = set(t.params())
+    locals_ = {n.id for n in walk_no_nested(t.node) if isinstance(n, ast.Name) and isinstance(n.ctx, ast.Store)} - params
+    for _ in range(depth + 1):
+        names = {n.id for n in ast.walk(e) if isinstance(n, ast.Name) and isinstance(n.ctx, ast.Load)} & locals_ - own
+        if not names:
+            break
+        m = {}
+        for nm in names:
+            d = single_def(t, nm)
+            if d is None or d[1] is not None or not _pure_expr(d[0]):
+                return None
+            m[nm] = d[0]
+        e = _SubstNames(m).visit(e)
+    else:
+        return None
+    used = {n.id for n in ast.walk(e) if isinstance(n, ast.Name) and isinstance(n.ctx, ast.Load)} & params - {"self", "cls"} - own
+    if not used <= set(binding):
+        return None
+    return _SubstNames(binding).visit(e)
+
+
+def _pure_expr(e: ast.AST) -> bool:
+    """no call other than the read-only ones this module reasons about (dict.get / .values / key_to_bin / len ...)"""
+    for n in ast.walk(e):
+        if isinstance(n, (ast.Await, ast.Yield, ast.YieldFrom, ast.NamedExpr)):
+            return False
+        if isinstance(n, ast.Call):
+            nm = n.func.attr if isinstance(n.func, ast.Attribute) else n.func.id if isinstance(n.func, ast.Name) else None
+            if nm not in ("get", "values", "keys", "items", "key_to_bin", "len", "set", "list", "tuple", "frozenset", "sorted", "cast", "bool", "any", "all"):
+                return False
+    return True
+
+
+def _call_binding(t: FuncInfo, call: ast.Call) -> dict[str, ast.AST]:
+    params = _params_of(t)
+    out = {params[i]: a_ for i, a_ in enumerate(call.args) if i < len(params) and not isinstance(a_, ast.Starred)}
+    out.update({k.arg: k.value for k in call.keywords if k.arg})
+    return out
+
+
+def _helper_facts(ctx: Ctx, net, fi: FuncInfo, f, depth: int = 1) -> list:
+    """
+    Fact f tests the result of one of Network's own methods (a predicate / decision helper that could not be inlined): the facts, in the
+    caller's terms, that hold at EVERY `return` of the helper compatible with the tested outcome.  [] when f is not such a test.
+    """
+    rt = _result_test(f)
+    if rt is None:
+        return []
+    subj, accept, mode = rt
+    subjects = _subject_calls(fi, subj)
+    if not subjects:
+        return []
+    common: dict | None = None
+    for call, idx in subjects:
+        ts = _call_targets(net, fi, call)
+        if not ts:
+            return []
+        for t in ts:
+            if any(isinstance(n, (ast.Yield, ast.YieldFrom)) for n in walk_no_nested(t.node)):
+                return []
+            binding = _call_binding(t, call)
+            cfg = ctx.cfg(t)
+            alts: list[list] = []
+            for r, cases in _compatible_returns(t, idx, accept, mode):
+                here = facts_at(cfg, r)
+                alts += [here + case for case in cases]
+            if idx is None and accept(None) and _falls_off_end(ctx, t):
+                alts.append([])
+            for facts in alts:
+                if depth > 0:
+                    facts = facts + [g for h in facts for g in _helper_facts_local(ctx, net, t, h, depth - 1)]
+                mine = {}
+                for h in facts:
+                    if isinstance(h.left, (ast.For, ast.AsyncFor, ast.While)):
+                        continue
+                    atom = _translate(t, h.atom, binding)
+                    if atom is None:
+                        continue
+                    pol = fact_of(h.atom, True).pos == h.pos
+                    g = fact_of(atom, pol)
+                    mine[(ast.dump(atom), g.pos)] = g
+                common = mine if common is None else {k: v for k, v in common.items() if k in mine}
+    return list((common or {}).values())
+
+
+def _helper_facts_local(ctx: Ctx, net, fi: FuncInfo, f, depth: int) -> list:
+    try:
+        return _helper_facts(ctx, net, fi, f, depth)
+    except RecursionError:      # pragma: no cover
+        return []
+
+
+def _with_helper_facts(ctx: Ctx, fi: FuncInfo, facts: list) -> list:
+    """facts plus what the decision helpers they test establish (see _helper_facts)"""
+    if not any(isinstance(n, ast.Call) for f in facts if not isinstance(f.left, (ast.For, ast.AsyncFor, ast.While)) for n in ast.walk(f.atom)):
+        return facts
+    net = ctx.repo.cls("Network", NW)
+    return facts + [g for f in facts for g in _helper_facts(ctx, net, fi, f)]
+
+
+def _loop_forall(ctx: Ctx, fi: FuncInfo, loop: ast.AST, holds) -> bool:
+    """every iteration of `loop` that goes on to the next element took a condition edge with holds(fact, loop variable): when the loop is
+    exhausted, the fact holds for EVERY element of the iterable"""
+    if not isinstance(loop, (ast.For, ast.AsyncFor)) or not isinstance(loop.target, ast.Name):
+        return False
+    cfg = ctx.cfg(fi)
+    x = loop.target.id
+
+    def cut(u, v, lab):
+        return u.kind == "cond" and lab in (True, False) and u.ast is not None and bool(holds(fact_of(u.ast, lab), x))
+    heads = [h for h in cfg.nodes_for(loop) if h.kind == "loop"]
+    if not heads:
+        return False
+    for h in heads:
+        first = [v for v, lab in h.succ if lab is True]
+        if h in cfg.reach(first, cut_edge=cut, follow_exc=False):
+            return False
+    return True
+
+
+def _reach_sites(ctx: Ctx, net, fi: FuncInfo, find, depth: int = 3, _stack: tuple = ()) -> list[list[tuple[FuncInfo, ast.AST]]]:
+    """
+    Call chains from fi down to the nodes find(function) yields, through Network's private helpers: each result is a list of frames
+    (function, node) where the node of every frame but the last is the call that enters the next frame's function.
+    """
+    out = [[(fi, n)] for n in find(fi)]
+    if depth > 0:
+        for c in calls(fi):
+            for t in _call_targets(net, fi, c):
+                if not _is_private(t) or t in _stack:
+                    continue
+                out += [[(fi, c)] + s for s in _reach_sites(ctx, net, t, find, depth - 1, (*_stack, fi))]
+    return out
+
+
+def _who_down(frames, who):
+    """the caller's expression `who` as each frame of a call chain sees it (parameter passing)"""
+    out = [who]
+    for (fi, c), (t, _n) in zip(frames, frames[1:]):
+        who = _bind(fi, c, t, who)
+        out.append(who)
+    return out
+
+
+def _who_up(frames, inner):
+    """an expression of the last frame as each outer frame sees it (the argument it passed), None where it is not a parameter"""
+    out = [inner]
+    for (fi, c), (t, _n) in zip(reversed(frames[:-1]), reversed(frames[1:])):
+        inner = _unbind(fi, c, t, inner)
+        out.append(inner)
+    return list(reversed(out))
+
+
 class _ReaderFlow:
     """
     Where does a value taken out of a cache (self.<index>) flow to inside one function, and is it re-validated against the
@@ -310,18 +1025,70 @@ class _ReaderFlow:
     No statement positions are used: only definitions, dominating facts and CFG reachability.
     """
 
-    def __init__(self, ctx: Ctx, fi: FuncInfo, index: str, kind: str, required, helpers=()) -> None:
+    def __init__(self, ctx: Ctx, fi: FuncInfo, index: str, kind: str, required, helpers=(), seed=None, depth: int = 2) -> None:
         self.ctx, self.fi, self.index, self.kind, self.required = ctx, fi, index, kind, required
+        self.helpers, self.depth = helpers, depth
         self.raws = _raw_reads(fi, index, helpers)
         self.raw_ids = {id(r) for r in self.raws}
         self.keys = [k for k in (_key_of(r) for r in self.raws) if k is not None]
         self.tainted: set[str] = set()
+        # seed: this function is followed from a caller that hands it the cached value: (parameters that hold it, parameters that hold
+        # the cache key, parameters that hold the key peer's key_to_bin())
+        self.seeds: frozenset[str] = frozenset(seed[0]) if seed else frozenset()
+        self.key_bins: frozenset[str] = frozenset(seed[2]) if seed else frozenset()
+        if seed:
+            self.keys += [ast.Name(id=p_, ctx=ast.Load()) for p_ in seed[1]]
+            self.tainted |= set(self.seeds)
+        self._sub_memo: dict = {}
         self.events: dict[str, list[tuple[ast.stmt, str]]] = {}
         self.problems: list[str] = []
         self.validated: list[str] = []
         self.why: dict[int, str] = {}
         self.loop_events: list[tuple[str, ast.stmt, str]] = []
-        self.cfg = ctx.cfg(fi) if self.raws else None
+        self.cfg = ctx.cfg(fi) if self.raws or self.seeds else None
+
+    # -- decision helpers and followed calls
+    def expand(self, facts: list) -> list:
+        return _with_helper_facts(self.ctx, self.fi, facts)
+
+    def is_key_bin(self, e: ast.AST) -> bool:
+        """e evaluates the key_to_bin() of the peer that is the cache key"""
+        return any(_key_bin_of(self.fi, e, chain(k) or "?") for k in self.keys) or \
+            (bool(self.key_bins) and _resolves_to(self.fi, e, lambda x: isinstance(strip_cast(x), ast.Name) and strip_cast(x).id in self.key_bins))
+
+    def _clean_call(self, e: ast.AST, carrying) -> bool | None:
+        """
+        e is a call of one of Network's own methods that is handed the cached value (carrying(arg)): followed with the parameters bound.
+        True: nothing unvalidated comes back (the method filters / validates what it returns or yields); False: it may; None: not such a call.
+        """
+        e = _unwrap(e) if self.kind == "list" else strip_cast(e)
+        if not isinstance(e, ast.Call) or id(e) in self.raw_ids:
+            return None
+        net = self.ctx.repo.cls("Network", NW)
+        ts = _call_targets(net, self.fi, e)
+        if not ts:
+            return None
+        for t in ts:
+            pairs = list(_call_binding(t, e).items())
+            seeds = frozenset(p_ for p_, a_ in pairs if carrying(a_))
+            if not seeds:
+                return None
+            if self.depth <= 0:
+                return False
+            keys = frozenset(p_ for p_, a_ in pairs if any(same_resolved(self.fi, a_, k) for k in self.keys))
+            key_bins = frozenset(p_ for p_, a_ in pairs if self.is_key_bin(a_))
+            memo = (id(t.node), seeds, keys, key_bins)
+            if memo not in self._sub_memo:
+                self._sub_memo[memo] = None       # recursion guard
+                sub = _ReaderFlow(self.ctx, t, self.index, self.kind, self.required, self.helpers, (seeds, keys, key_bins), self.depth - 1).run()
+                self._sub_memo[memo] = sub
+            sub = self._sub_memo[memo]
+            if sub is None or sub.problems:
+                if sub is not None:
+                    self.why[id(e)] = f"{t.name}: " + "; ".join(sub.problems)[:160]
+                return False
+            self.validated += [f"{t.name}: {v}" for v in sub.validated]
+        return True
 
     # -- taint of expressions
     def _mentions(self, e: ast.AST) -> bool:
@@ -332,11 +1099,14 @@ class _ReaderFlow:
         if e is None:
             return False
         if self.kind == "elem":
-            return any(id(p) in self.raw_ids or (isinstance(p, ast.Name) and p.id in self.tainted) for p in _value_positions(e))
+            return any(id(p) in self.raw_ids or (isinstance(p, ast.Name) and p.id in self.tainted) or self._clean_call(p, self._carries) is False
+                       for p in _value_positions(e))
         e = strip_cast(e)
         if isinstance(e, ast.Compare) or (isinstance(e, ast.Call) and chain(e.func) in ("len", "bool", "any", "all", "isinstance")):
             return False
         if not self._mentions(e):
+            return False
+        if self._clean_call(e, self._carries) is True:
             return False
         return not self._clean_filter(e)
 
@@ -352,7 +1122,7 @@ class _ReaderFlow:
                 continue
             if not isinstance(g.target, ast.Name):
                 return False
-            facts = [f for g2 in v.generators[i:] for c in g2.ifs for f in _atoms_with_polarity(c, True)]
+            facts = self.expand([f for g2 in v.generators[i:] for c in g2.ifs for f in _atoms_with_polarity(c, True)])
             missing = self.required(self, g.target.id, facts)
             if missing:
                 self.why[id(value)] = "keeps cached members without checking " + " and ".join(missing)
@@ -363,7 +1133,7 @@ class _ReaderFlow:
 
     # -- fixpoint over local names
     def run(self) -> "_ReaderFlow":
-        if not self.raws:
+        if not self.raws and not self.seeds:
             return self
         fi = self.fi
         names = {n.id for n in walk_no_nested(fi.node) if isinstance(n, ast.Name) and isinstance(n.ctx, ast.Store)}
@@ -407,7 +1177,7 @@ class _ReaderFlow:
                     sink, what = "<result>", n
                 if sink is None:
                     continue
-                facts = facts_at(cfg, what)
+                facts = self.expand(facts_at(cfg, what))
                 missing = self.required(self, e, facts)
                 validated_calls.add(id(what))
                 if missing:
@@ -444,15 +1214,17 @@ class _ReaderFlow:
             return False
         if self.kind == "elem":
             for p in _value_positions(e):
-                if id(p) in self.raw_ids or _is_name(p, holders):
+                if id(p) in self.raw_ids or _is_name(p, holders) or self._clean_call(p, lambda a_: self._carried_by(a_, holders, pred)) is False:
                     # `hit if hit in self.verified_peers and ... else None`: the position is only evaluated under these facts
-                    if not any(self._miss_fact(f, holders) or (pred is not None and pred(f, holders)) for f in expr_context_facts(p)):
+                    if not any(self._miss_fact(f, holders) or (pred is not None and pred(f, holders)) for f in self.expand(expr_context_facts(p))):
                         return True
             return False
         e = strip_cast(e)
         if isinstance(e, ast.Compare) or (isinstance(e, ast.Call) and chain(e.func) in ("len", "bool", "any", "all", "isinstance")):
             return False
         if not any(id(n) in self.raw_ids or _is_name(n, holders) for n in ast.walk(e)):
+            return False
+        if self._clean_call(e, lambda a_: self._carried_by(a_, holders, pred)) is True:
             return False
         return not self._clean_filter(e)
 
@@ -517,6 +1289,8 @@ class _ReaderFlow:
             if any(id(p) in self.raw_ids or (self.kind == "list" and id(_unwrap(p)) in self.raw_ids) for p in _value_positions(r.value)):
                 self.problems.append(f"`{norm(r)[:80]}` returns the cache entry itself")
         origins = [(n, frozenset(), f"`{norm(enclosing_stmt(raw))[:80]}`") for raw in self.raws for n in cfg.nodes_for(raw)]
+        if self.seeds:      # followed from a caller: the parameters hold the cached value from the start
+            origins.append((cfg.entry, self.seeds, "the cached value handed in as " + "/".join(sorted(self.seeds))))
         for name, st, msg in self.loop_events:      # a loop over the cached list that keeps members without the required checks
             origins += [(n, frozenset({name}), msg) for n in cfg.nodes_for(st)]
         wanted = self.required(self, None, None) if self.kind == "elem" else [("", None)]
@@ -536,12 +1310,20 @@ class _ReaderFlow:
                             q = _unwrap(p) if self.kind == "list" else strip_cast(p)
                             if not (_is_name(q, held) or (self.kind == "list" and self._carried_by(q, held))):
                                 continue
-                            cf = expr_context_facts(p)
+                            cf = self.expand(expr_context_facts(p))
                             if any(self._miss_fact(f, held) or (pred is not None and pred(f, held)) for f in cf):
                                 continue
                             self._in_place(held, n.ast)
                             bad.add((norm(n.ast)[:60], src))
                     continue
+                if n.kind == "stmt" and isinstance(n.ast, ast.Expr) and isinstance(n.ast.value, (ast.Yield, ast.YieldFrom)) and n.ast.value.value is not None:
+                    # a generator hands the held value out: `yield from cached` / `yield cached_peer`
+                    y = n.ast.value.value
+                    for p in _value_positions(y):
+                        q = _unwrap(p) if self.kind == "list" else strip_cast(p)
+                        if (_is_name(q, held) or (self.kind == "list" and isinstance(n.ast.value, ast.YieldFrom) and self._carried_by(q, held))) \
+                                and not (self.kind == "list" and isinstance(n.ast.value, ast.Yield)):
+                            bad.add((norm(n.ast)[:60], src))
                 for name, v, keeps in self._defs_at(n):
                     if self._carried_by(v, held, pred):
                         held = held | {name}
@@ -553,8 +1335,7 @@ class _ReaderFlow:
                     if lab == "exc":
                         continue
                     if n.kind == "cond" and lab in (True, False):
-                        f = fact_of(n.ast, lab)
-                        if self._miss_fact(f, held) or (pred is not None and pred(f, held)):
+                        if any(self._miss_fact(f, held) or (pred is not None and pred(f, held)) for f in self.expand([fact_of(n.ast, lab)])):
                             continue
                     todo.append((v, held, src))
             for ret, src in sorted(bad):
@@ -627,7 +1408,7 @@ def _intro_required(flow: _ReaderFlow, e: str, facts) -> list[str]:
         if not (f.op == "eq" and f.pos):
             return False
         for a, b in ((f.left, f.right), (f.right, f.left)):
-            if (introducer(a) or _resolves_to(fi, a, introducer)) and any(_key_bin_of(fi, b, chain(k) or "?") for k in flow.keys):
+            if (introducer(a) or _resolves_to(fi, a, introducer)) and flow.is_key_bin(b):
                 return True
         return False
 
@@ -699,7 +1480,9 @@ def reader_validation(ctx: Ctx) -> dict[str, tuple[bool, str]]:
 
 def rule_matrix(ctx: Ctx) -> None:
     sites = mutation_sites(ctx)
-    ctx.floor("coherence.mutation-sites", len(sites), 12)
+    # confirmed: every authoritative collection is both extended and reduced somewhere in network.py (how many statements do it is a
+    # matter of code shape: duplicated blocks may be merged, removals may share a helper)
+    ctx.floor("coherence.mutation-sites", len({(coll, kind) for _f, coll, kind, _n in sites if kind in ("add", "remove")}), 6)
     validates = reader_validation(ctx)
     ctx.extra["reader_validation"] = {k: {"validates": v[0], "how": v[1]} for k, v in validates.items()}
     seen = set()
@@ -714,7 +1497,7 @@ def rule_matrix(ctx: Ctx) -> None:
             if key in seen:
                 continue
             seen.add(key)
-            upd = _updates_index(ctx, fi, index)
+            upd = _updates_index(ctx, fi, index) or _callers_update(ctx, fi, index)
             val = validates[index][0] and kind == "remove"       # validation cures stale members, not missing ones
             ok = upd or val
             matrix[f"{fi.name} [{coll} {kind}] x {index}"] = "updates" if upd else "reader-validates" if val else "STALE"
@@ -738,7 +1521,9 @@ def rule_matrix(ctx: Ctx) -> None:
                               ("get_introductions_from", "reverse_intro_lookup", "self._all_addresses"),
                               ("get_peers_for_service", "reverse_service_lookup", "self.verified_peers")):
         f = net.methods[name]
-        scans = [n for n in ast.walk(f.node) if isinstance(n, (ast.For, ast.comprehension)) and mentions(n.iter, auth)]
+        # (also in a private helper the reader delegates the recomputation to, e.g. a generator over the authoritative collection)
+        scans = _reach_sites(ctx, net, f, lambda g, auth=auth: [n for n in ast.walk(g.node) if isinstance(n, (ast.For, ast.comprehension))
+                                                                and (mentions(n.iter, auth) or (auth == "self.verified_peers" and _resolves_to(g, n.iter, lambda y: _verified_members(g, y))))])
         ctx.check(bool(scans), "coherence", f, f.node, f"{name}: a cache miss scans {auth}", f"{name} does not recompute from {auth} on a cache miss")
     # readers do not change the answer: they only write their own cache
     for name in _QUERIES:
@@ -764,6 +1549,16 @@ def _quantified(f, coll: str) -> str | None:
     """'some-in' (an element is in coll) / 'none-in' (no element is in coll) when fact f says so, else None."""
     if f.op == "in" and _is_coll(f.right, coll):
         return "some-in" if f.pos else None
+    if f.op == "truthy":
+        left = _unwrap(f.left)
+        if isinstance(left, ast.BinOp) and isinstance(left.op, ast.BitAnd) and (_is_coll(left.left, coll) or _is_coll(left.right, coll)):
+            return "some-in" if f.pos else "none-in"        # set(addresses) & set(coll)
+        if isinstance(left, (ast.ListComp, ast.SetComp)) and len(left.generators) == 1 and isinstance(left.generators[0].target, ast.Name) \
+                and _is_name(left.elt, left.generators[0].target.id) and len(left.generators[0].ifs) == 1:
+            # [a for a in addresses if a in coll]: non-empty / empty
+            fs = _atoms_with_polarity(left.generators[0].ifs[0], True)
+            if len(fs) == 1 and fs[0].op == "in" and fs[0].pos and _is_name(fs[0].left, left.elt.id) and _is_coll(fs[0].right, coll):
+                return "some-in" if f.pos else "none-in"
     if f.op != "truthy" or not isinstance(f.left, ast.Call):
         return None
     c = f.left
@@ -780,123 +1575,292 @@ def _quantified(f, coll: str) -> str | None:
         return "none-in" if any(x.op == "in" and not x.pos and _is_coll(x.right, coll) for x in fs) else None
     if isinstance(c.func, ast.Attribute) and c.func.attr == "isdisjoint" and len(c.args) == 1 and (_is_coll(c.func.value, coll) or _is_coll(c.args[0], coll)):
         return "none-in" if f.pos else "some-in"
+    if isinstance(c.func, ast.Attribute) and c.func.attr == "intersection" and len(c.args) == 1 and (_is_coll(c.func.value, coll) or _is_coll(c.args[0], coll)):
+        return "some-in" if f.pos else "none-in"        # a non-empty / empty intersection with coll
     return None
 
 
+def _grow_nodes(fi: FuncInfo) -> list[ast.AST]:
+    """the nodes of fi that can make verified_peers larger: .add / .update (also through an alias), `|=`"""
+    return [n for n, op, _r, _k in _coll_ops(fi, "verified_peers") if op in ("add", "update") or (op == "aug" and isinstance(n.op, ast.BitOr))]
+
+
 def _grows_verified(net, fi: FuncInfo, depth: int = 3) -> bool:
-    if calls(fi, ["self.verified_peers.add", "self.verified_peers.update"]):
+    if _grow_nodes(fi):
         return True
     if depth > 0:
         for c in calls(fi):
-            ch = chain(c.func) or ""
-            t = net.methods.get(call_name(c)) if ch.startswith("self.") and ch.count(".") == 1 else None
-            if t is not None and t.name.startswith("_") and t.node is not fi.node and _grows_verified(net, t, depth - 1):
-                return True
+            for t in _call_targets(net, fi, c):
+                if _is_private(t) and _grows_verified(net, t, depth - 1):
+                    return True
     return False
 
 
-def _verified_add_sites(ctx: Ctx, net, fi: FuncInfo, who: str | None, prefix: list, depth: int = 3):
+def _verified_add_sites(ctx: Ctx, net, fi: FuncInfo, who: str | None = None, prefix: list | None = None, depth: int = 3):
     """
-    (function, `self.verified_peers.add(..)` call, [(fact, name of the peer in that fact's function)]) for every way add_verified_peer
-    reaches an insertion - directly or through private helpers; the facts are those that dominate the call chain.
+    Every way add_verified_peer reaches an insertion into verified_peers - directly or through private helpers (also picked from a
+    dispatch table): a list of call chains, each a list of frames (function, node); the last node is the insertion, the others are the
+    calls that lead to it.
     """
-    cfg = ctx.cfg(fi)
-    out = []
-    for c in calls(fi, ["self.verified_peers.add", "self.verified_peers.update"]):
-        out.append((fi, c, prefix + [(f, who) for f in facts_at(cfg, c)]))
-    if depth > 0:
-        for c in calls(fi):
-            ch = chain(c.func) or ""
-            t = net.methods.get(call_name(c)) if ch.startswith("self.") and ch.count(".") == 1 else None
-            if t is None or not t.name.startswith("_") or t.node is fi.node or not _grows_verified(net, t, depth - 1):
-                continue
-            who2 = None
-            tparams = t.params()[1:]
-            for i, a_ in enumerate(c.args):
-                if who is not None and _is_name(a_, who) and i < len(tparams):
-                    who2 = tparams[i]
-            for k in c.keywords:
-                if who is not None and k.arg and _is_name(k.value, who):
-                    who2 = k.arg
-            out += _verified_add_sites(ctx, net, t, who2, prefix + [(f, who) for f in facts_at(cfg, c)], depth - 1)
-    return out
+    return _reach_sites(ctx, net, fi, _grow_nodes, depth)
 
 
 def _private_to(ctx: Ctx, net, fi: FuncInfo, owner: FuncInfo, depth: int = 3) -> bool:
-    """fi is a private Network helper whose every call site lies in `owner` (or in another such helper)"""
-    if fi is None or fi.cls is not net or not fi.name.startswith("_") or fi.name.startswith("__") or depth <= 0:
+    """fi is a private Network helper whose every use lies in `owner` (or in another such helper)"""
+    if fi is None or fi.cls is not net or not _is_private(fi) or depth <= 0:
         return False
-    sites = list(ctx.repo.callers_of_name(fi.name))
+    sites = _internal_call_sites(ctx, net, fi)
     if not sites:
         return False
-    for m, caller, c in sites:
-        if caller is None or caller.cls is not net:
-            return False
+    for caller, _c in sites:
         if caller.node is not owner.node and caller.node is not fi.node and not _private_to(ctx, net, caller, owner, depth - 1):
             return False
     return True
 
 
+def _frame_facts(ctx: Ctx, frames) -> list[str]:
+    return list(dict.fromkeys(str(f) for fi, n in frames for f in facts_at(ctx.cfg(fi), n)))
+
+
+def _searched_without_match(ctx: Ctx, fi: FuncInfo, f, coll: str, is_subject) -> bool:
+    """fact f is the exhausted edge of a search loop `for x in self.<coll>: if x == <subject>: <leave>`: the subject is not in the collection"""
+    if not isinstance(f.left, (ast.For, ast.AsyncFor)) or f.pos or coll not in _denotes(fi, _unwrap(f.left.iter)):
+        return False
+
+    def differs(g, x):
+        return g.op == "eq" and not g.pos and ((_is_name(g.left, x) and is_subject(g.right)) or (_is_name(g.right, x) and is_subject(g.left)))
+    return _loop_forall(ctx, fi, f.left, differs)
+
+
+def _mid_edge_of(ctx: Ctx):
+    def edge(fi: FuncInfo, f, who) -> bool:
+        """the edge establishes `<who>.mid not in self.blacklist_mids`"""
+        if who is None or isinstance(f.left, ast.While):
+            return False
+        w = chain(who)
+
+        def is_mid(x):
+            return _resolves_to(fi, x, lambda y: chain(strip_cast(y)) == f"{w}.mid")
+        if isinstance(f.left, (ast.For, ast.AsyncFor)):
+            return _searched_without_match(ctx, fi, f, "self.blacklist_mids", is_mid)
+        return f.op == "in" and not f.pos and chain(_unwrap(f.right)) == "self.blacklist_mids" and is_mid(f.left)
+    return edge
+
+
+def _address_edge(ctx: Ctx):
+    """the edge establishes that SOME address of the peer is already known, or that NO address of the peer is blacklisted"""
+    def not_black(g, x):
+        return g.op == "in" and not g.pos and _is_name(g.left, x) and _is_coll(g.right, "self.blacklist")
+
+    def edge(fi: FuncInfo, f, who) -> bool:
+        if isinstance(f.left, (ast.For, ast.AsyncFor)):
+            # `for a in peer.addresses.values(): if a in self.blacklist: return` ran to exhaustion: no address is blacklisted
+            return not f.pos and _over_addresses(fi, f.left.iter, who) and _loop_forall(ctx, fi, f.left, not_black)
+        if isinstance(f.left, ast.While):
+            return False
+        return _quantified(f, "self._all_addresses") == "some-in" or _quantified(f, "self.blacklist") == "none-in"
+    return edge
+
+
+def _over_addresses(fi: FuncInfo, it: ast.AST, who) -> bool:
+    """the iterable holds the addresses of the peer (when the peer is known by name in this function)"""
+    if who is None:
+        return True
+    w = chain(who)
+    return _resolves_to(fi, _unwrap(it), lambda x: mentions(x, f"{w}.addresses"))
+
+
 def rule_blacklists(ctx: Ctx) -> None:
     net = ctx.repo.cls("Network", NW)
     av = net.methods["add_verified_peer"]
-    peer = av.params()[1]
-    sites = _verified_add_sites(ctx, net, av, peer, [])
-    ctx.floor("blacklists", len(sites), 2)
-    for fi, c, fs in sites:
-        shown = [str(f) for f, _ in fs]
-        ok = any(f.op == "in" and not f.pos and who is not None and chain(strip_cast(f.left)) == f"{who}.mid" and chain(_unwrap(f.right)) == "self.blacklist_mids"
-                 for f, who in fs)
+    peer = ast.Name(id=av.params()[1], ctx=ast.Load())
+    sites = _verified_add_sites(ctx, net, av)
+    # one insertion per admitted case, or one insertion shared by all cases: what is confirmed is that add_verified_peer inserts at all
+    ctx.floor("blacklists", len(sites), 1)
+    addr_edge = _address_edge(ctx)
+    mid_edge = _mid_edge_of(ctx)
+    for frames in sites:
+        fi, c = frames[-1]
+        whos = _who_down(frames, peer)
+        shown = _frame_facts(ctx, frames)
+        ok = any(_guarded(ctx, net, f_, n_, w_, mid_edge) for (f_, n_), w_ in zip(frames, whos))
         ctx.check(ok, "blacklists", fi, c, "verified_peers.add dominated by peer.mid not in blacklist_mids", "a blacklisted identity can become a verified peer", shown)
         # the new-peer branch (no known address) requires all addresses outside the blacklist
-        known_addr = any(_quantified(f, "self._all_addresses") == "some-in" for f, _ in fs)
-        not_black = any(_quantified(f, "self.blacklist") == "none-in" for f, _ in fs)
-        ctx.check(known_addr or not_black, "blacklists", fi, c, "peer added only via a known address or with all addresses outside the blacklist",
+        ok = any(_guarded(ctx, net, f_, n_, w_, addr_edge) for (f_, n_), w_ in zip(frames, whos))
+        ctx.check(ok, "blacklists", fi, c, "peer added only via a known address or with all addresses outside the blacklist",
                   "a peer with a blacklisted address is added as a new verified peer", shown)
     for m, fi, a in ctx.repo.attribute_uses("verified_peers"):
         p = parent(a)
         if isinstance(p, ast.Attribute) and p.attr in ("add", "update") and fi is not None and fi.qualname != "Network.add_verified_peer" \
                 and not _private_to(ctx, net, fi, av):
             ctx.check(False, "blacklists", fi, enclosing_stmt(a), "verified_peers grows only in add_verified_peer", "verified_peers is extended around the blacklist checks")
+    for fi in net.methods.values():
+        if fi.node is not av.node and not _private_to(ctx, net, fi, av):
+            for n in _grow_nodes(fi):
+                if not (isinstance(n, ast.Call) and chain(n.func.value) == "self.verified_peers"):       # the direct spelling is reported above
+                    ctx.check(False, "blacklists", fi, enclosing_stmt(n), "verified_peers grows only in add_verified_peer",
+                              "verified_peers is extended around the blacklist checks")
     da = net.methods["discover_address"]
-    cfgd = ctx.cfg(da)
-    for st, t in stores(da, "self._all_addresses[]"):
-        fs = facts_at(cfgd, st)
-        ok = any(f.op == "in" and not f.pos and same_resolved(da, f.left, t.slice) and chain(_unwrap(f.right)) == "self.blacklist" for f in fs)
-        ctx.check(ok, "blacklists", da, st, "discover_address stores only non-blacklisted addresses", "a blacklisted address becomes walkable", [str(f) for f in fs])
+
+    def stores_of(fi: FuncInfo):
+        return [n for n, op, _r, _k in _coll_ops(fi, "_all_addresses") if op in _ADD_OPS or (op == "aug" and isinstance(n.op, ast.BitOr))]
+
+    def black_edge(fi: FuncInfo, f, who) -> bool:
+        if who is None or isinstance(f.left, ast.While):
+            return False
+        if isinstance(f.left, (ast.For, ast.AsyncFor)):
+            return _searched_without_match(ctx, fi, f, "self.blacklist", lambda x: same_resolved(fi, x, who))
+        return f.op == "in" and not f.pos and same_resolved(fi, f.left, who) and chain(_unwrap(f.right)) == "self.blacklist"
+    n_stores = 0
+    for frames in _reach_sites(ctx, net, da, stores_of):
+        fi, st = frames[-1]
+        key = next((k for n, op, _r, k in _coll_ops(fi, "_all_addresses") if n is st), None)
+        if key is None:
+            raise AnalysisError(f"undecided: {fi.qualname} adds to _all_addresses with `{norm(st)[:60]}`: the stored address is not syntactically known")
+        n_stores += 1
+        whos = _who_up(frames, key)
+        ok = any(_guarded(ctx, net, f_, n_, w_, black_edge) for (f_, n_), w_ in zip(frames, whos))
+        ctx.check(ok, "blacklists", fi, st, "discover_address stores only non-blacklisted addresses", "a blacklisted address becomes walkable", _frame_facts(ctx, frames))
+    ctx.floor("blacklists.discover-address", n_stores, 1)
+
+
+class _Who:
+    """one peer as a function sees it: the expressions (chains) that ARE the peer, and the locals / parameters that hold its key_to_bin()"""
+
+    def __init__(self, peers=(), keys=()) -> None:
+        self.peers = frozenset(p_ for p_ in peers if p_)
+        self.keys = frozenset(keys)
+
+    @classmethod
+    def of(cls, fi: FuncInfo, peer: ast.AST) -> "_Who":
+        return cls({chain(strip_cast(peer)), chain(resolve(fi, peer))})
+
+    def is_peer(self, fi: FuncInfo, e: ast.AST) -> bool:
+        return e is not None and bool({chain(strip_cast(e)), chain(resolve(fi, e))} & self.peers)
+
+    def is_key(self, ctx: Ctx, net, fi: FuncInfo, e: ast.AST, depth: int = 2) -> bool:
+        """e evaluates the peer's public_key.key_to_bin() - spelled out, held in a local, or handed in as a parameter by every caller"""
+        if e is None:
+            return False
+        if any(_key_bin_of(fi, e, p_) for p_ in self.peers):
+            return True
+        if self.keys and _resolves_to(fi, e, lambda x: isinstance(x, ast.Name) and x.id in self.keys):
+            return True
+        r = resolve(fi, e)
+        if depth > 0 and isinstance(r, ast.Name) and r.id in _params_of(fi) and _is_private(fi):
+            sites = _internal_call_sites(ctx, net, fi)
+            if not sites:
+                return False
+            for caller, call in sites:
+                up = _Who({chain(strip_cast(a_)) for a_ in (_arg_for(call, fi, p_) for p_ in self.peers) if a_ is not None})
+                if not up.peers or not up.is_key(ctx, net, caller, _arg_for(call, fi, r.id), depth - 1):
+                    return False
+            return True
+        return False
+
+    def down(self, ctx: Ctx, net, fi: FuncInfo, call: ast.Call, t: FuncInfo) -> "_Who":
+        """the same peer as the called method t sees it"""
+        params = _params_of(t)
+        pairs = [(params[i], a_) for i, a_ in enumerate(call.args) if i < len(params) and not isinstance(a_, ast.Starred)]
+        pairs += [(k.arg, k.value) for k in call.keywords if k.arg]
+        return _Who({p_ for p_, a_ in pairs if self.is_peer(fi, a_)}, {p_ for p_, a_ in pairs if self.is_key(ctx, net, fi, a_)})
+
+    def up(self, fi: FuncInfo, call: ast.Call, t: FuncInfo) -> "_Who":
+        """the peer of the called method t as the caller fi sees it (empty when it is not handed in as a parameter)"""
+        args = [_arg_for(call, t, p_) for p_ in self.peers if p_ in t.params()]
+        return _Who({x for a_ in args if a_ is not None for x in (chain(strip_cast(a_)), chain(resolve(fi, a_)))})
+
+
+def _by_key_targets(ctx: Ctx, net, fi: FuncInfo, who: _Who, adding: bool, depth: int = 2) -> list:
+    """CFG nodes of fi that certainly register (adding) / unregister the peer in verified_by_public_key_bin, also by calling a method that always does"""
+    def want(n, op, recv, key):
+        if adding and op in ("update", "aug") and isinstance(n, (ast.Call, ast.AugAssign)):
+            m = _unwrap(resolve(fi, (n.args[0] if n.args else None) if isinstance(n, ast.Call) else n.value))      # .update({p.key: p}) / |= {p.key: p}
+            return isinstance(m, ast.Dict) and any(k is not None and who.is_key(ctx, net, fi, k) and who.is_peer(fi, v) for k, v in zip(m.keys, m.values))
+        if not who.is_key(ctx, net, fi, key):
+            return False
+        if adding:
+            if op == "set[]" and isinstance(n, (ast.Assign, ast.AnnAssign)):
+                return who.is_peer(fi, n.value)
+            return op in ("__setitem__", "setdefault") and who.is_peer(fi, arg(n, 1))
+        return op in ("pop", "__delitem__", "del[]")
+    nodes = _must_op_nodes(ctx, fi, "verified_by_public_key_bin", want, None if adding else _key_absent_edge(ctx, net, fi, who))
+    if depth > 0:
+        cfg = ctx.cfg(fi)
+        for c in calls(fi):
+            ts = _call_targets(net, fi, c)
+            if ts and all(_always_by_key(ctx, net, t, who.down(ctx, net, fi, c, t), adding, depth - 1) for t in ts):
+                nodes += cfg.nodes_for(c)
+    return nodes
+
+
+def _key_absent_edge(ctx: Ctx, net, fi: FuncInfo, who: _Who):
+    """`if key in self.verified_by_public_key_bin: del ...[key]`: nothing to delete on the other branch"""
+    def absent(u, v, lab):
+        if u.kind != "cond" or lab not in (True, False):
+            return False
+        f = fact_of(u.ast, lab)
+        return f.op == "in" and not f.pos and "self.verified_by_public_key_bin" in _denotes(fi, _unwrap(f.right)) and who.is_key(ctx, net, fi, f.left)
+    return absent
+
+
+def _always_by_key(ctx: Ctx, net, t: FuncInfo, who: _Who, adding: bool, depth: int) -> bool:
+    """every normally completing run of t (un)registers the peer in the by-key index"""
+    if not who.peers and not who.keys:
+        return False
+    cfg = ctx.cfg(t)
+    nodes = _by_key_targets(ctx, net, t, who, adding, depth)
+    return bool(nodes) and cfg.exit not in cfg.reach(cut_nodes=nodes, cut_edge=None if adding else _key_absent_edge(ctx, net, t, who), follow_exc=False)
+
+
+def _by_key_follows(ctx: Ctx, net, fi: FuncInfo, start: ast.AST, who: _Who, adding: bool, depth: int = 2) -> bool:
+    """
+    Every normally completing path from `start` (the membership change) reaches the matching by-key index update before control returns
+    to code outside Network: in fi itself, or - when fi is a private helper that returns first - after each of its call sites.
+    """
+    cfg = ctx.cfg(fi)
+    nodes = _by_key_targets(ctx, net, fi, who, adding)
+    cut = None if adding else _key_absent_edge(ctx, net, fi, who)
+    starts = cfg.nodes_for(start)
+    if starts and all(cfg.exit not in cfg.reach([v for v, lab in n.succ if lab != "exc"], cut_nodes=nodes, cut_edge=cut, follow_exc=False) for n in starts):
+        return True
+    if depth > 0 and _is_private(fi):
+        sites = _internal_call_sites(ctx, net, fi)
+        if not sites:
+            return False
+        for caller, call in sites:
+            up = who.up(caller, call, fi)
+            if not up.peers or not _by_key_follows(ctx, net, caller, call, up, adding, depth - 1):
+                return False
+        return True
+    return False
 
 
 def rule_by_key(ctx: Ctx) -> None:
     net = ctx.repo.cls("Network", NW)
     for fi in net.methods.values():
-        cfg = ctx.cfg(fi)
-        for c in calls(fi, "self.verified_peers.add"):
-            sts = [s for s, t in stores(fi, "self.verified_by_public_key_bin[]") if isinstance(s, ast.Assign)]
-            peer = arg(c, 0)
-            # the sibling store registers the same peer under that peer's key
-            good = [s for s in sts for t in s.targets if isinstance(t, ast.Subscript) and chain(t.value) == "self.verified_by_public_key_bin"
-                    and same_resolved(fi, s.value, peer) and chain(resolve(fi, peer)) is not None
-                    and (_key_bin_of(fi, t.slice, chain(strip_cast(peer)) or "?") or _key_bin_of(fi, t.slice, chain(resolve(fi, peer)) or "?"))]
-            sn = [n for s in good for n in cfg.nodes_for(s)]
-            ok = bool(sn) and all(cfg.always_followed_by(n, sn) for n in cfg.nodes_for(c))
-            ctx.check(ok, "by-key-index", fi, c, "verified_peers.add(p) always followed by verified_by_public_key_bin[p.key] = p",
-                      "a peer is added to the verified set without its by-key index entry")
-        for c in calls(fi, ["self.verified_peers.remove", "self.verified_peers.discard"]):
-            peer = arg(c, 0)
-            who = {chain(strip_cast(peer)) or "?", chain(resolve(fi, peer)) or "?"}
-            pops = [n for p in calls(fi, "self.verified_by_public_key_bin.pop") if any(_key_bin_of(fi, arg(p, 0, "key"), w) for w in who) for n in cfg.nodes_for(p)]
-            pops += [n for s, t in stores(fi, "self.verified_by_public_key_bin[]") if isinstance(s, ast.Delete) and any(_key_bin_of(fi, t.slice, w) for w in who)
-                     for n in cfg.nodes_for(s)]
+        for c, op, _recv, peer in _coll_ops(fi, "verified_peers"):
+            if op == "add" and peer is not None:
+                # the sibling store registers the same peer under that peer's key
+                ok = _by_key_follows(ctx, net, fi, c, _Who.of(fi, peer), True)
+                ctx.check(ok, "by-key-index", fi, c, "verified_peers.add(p) always followed by verified_by_public_key_bin[p.key] = p",
+                          "a peer is added to the verified set without its by-key index entry")
+            elif op in ("remove", "discard") and peer is not None:
+                ok = _by_key_follows(ctx, net, fi, c, _Who.of(fi, peer), False)
+                ctx.check(ok, "by-key-index", fi, c, "verified_peers.remove(p) always followed by verified_by_public_key_bin.pop(p.key)",
+                          "a peer is removed from the verified set but stays in the by-key index (it can never be added again)")
 
-            def absent(u, v, lab, who=who):     # `if key in self.verified_by_public_key_bin: del ...[key]`: nothing to delete on the other branch
-                if u.kind != "cond" or lab not in (True, False):
-                    return False
-                f = fact_of(u.ast, lab)
-                return f.op == "in" and not f.pos and chain(_unwrap(f.right)) == "self.verified_by_public_key_bin" and any(_key_bin_of(fi, f.left, w) for w in who)
-            ok = bool(pops) and all(cfg.exit not in cfg.reach([v for v, lab in n.succ if lab != "exc"], cut_nodes=pops, cut_edge=absent, follow_exc=False)
-                                    for n in cfg.nodes_for(c))
-            ctx.check(ok, "by-key-index", fi, c, "verified_peers.remove(p) always followed by verified_by_public_key_bin.pop(p.key)",
-                      "a peer is removed from the verified set but stays in the by-key index (it can never be added again)")
+
+def _verified_members(fi: FuncInfo, y: ast.AST) -> bool:
+    """the iterable ranges over exactly the verified peers: self.verified_peers (alias / copy / list(..)), or the values of the by-key
+    dict, which rule by-key-index keeps a mirror of the verified set"""
+    y = _unwrap(y)
+    if isinstance(y, ast.Call) and isinstance(y.func, ast.Attribute) and y.func.attr == "copy" and not y.args:
+        y = _unwrap(y.func.value)
+    if isinstance(y, ast.Call) and isinstance(y.func, ast.Attribute) and y.func.attr == "values" and not y.args \
+            and "self.verified_by_public_key_bin" in _denotes(fi, y.func.value):
+        return True
+    return "self.verified_peers" in _denotes(fi, y)
 
 
 def _scans_verified(ctx: Ctx, net, fi: FuncInfo, depth: int = 1) -> list:
@@ -904,18 +1868,119 @@ def _scans_verified(ctx: Ctx, net, fi: FuncInfo, depth: int = 1) -> list:
     cfg = ctx.cfg(fi)
 
     def src(x):
-        return _resolves_to(fi, _unwrap(x), lambda y: chain(_unwrap(y)) == "self.verified_peers")
+        return _resolves_to(fi, _unwrap(x), lambda y: _verified_members(fi, y))
     nodes = []
     for n in walk_no_nested(fi.node):
         if isinstance(n, (ast.For, ast.AsyncFor)) and src(n.iter):
             nodes += cfg.nodes_for(n)
         elif isinstance(n, ast.comprehension) and src(n.iter):
             nodes += cfg.nodes_for(parent(n))
-        elif isinstance(n, ast.Call) and depth > 0 and (chain(n.func) or "").startswith("self.") and (chain(n.func) or "").count(".") == 1:
-            t = net.methods.get(call_name(n))
-            if t is not None and t.node is not fi.node and _scans_verified(ctx, net, t, depth - 1):
+        elif isinstance(n, ast.Call) and chain(n.func) in ("filter", "map") and len(n.args) == 2 and src(n.args[1]):
+            nodes += cfg.nodes_for(n)
+        elif isinstance(n, ast.Call) and depth > 0:
+            ts = _call_targets(net, fi, n)
+            if ts and all(_scans_verified(ctx, net, t, depth - 1) for t in ts):
                 nodes += cfg.nodes_for(n)
     return nodes
+
+
+def _removes_member(ctx: Ctx, net, fi: FuncInfo, who: ast.AST | None, depth: int = 2) -> bool:
+    """every normally completing run of fi takes `who` out of verified_peers (itself or through a method that always does), unless it
+    established that `who` is not a member"""
+    if who is None:
+        return False
+    cfg = ctx.cfg(fi)
+
+    def want(n, op, recv, key):
+        if op in ("remove", "discard"):
+            return key is not None and same_resolved(fi, key, who)
+        return op in ("rebind", "aug", "del[]", "del") and not (op == "aug" and isinstance(n.op, ast.BitOr))
+    rem = _must_op_nodes(ctx, fi, "verified_peers", want)
+    if depth > 0:
+        for c in calls(fi):
+            ts = _call_targets(net, fi, c)
+            if ts and all(_removes_member(ctx, net, t, _bind(fi, c, t, who), depth - 1) for t in ts):
+                rem += cfg.nodes_for(c)
+
+    def differs(g, x):
+        return g.op == "eq" and not g.pos and ((_is_name(g.left, x) and same_resolved(fi, g.right, who)) or (_is_name(g.right, x) and same_resolved(fi, g.left, who)))
+
+    def absent(u, v, lab):
+        if lab not in (True, False) or u.ast is None:
+            return False
+        if u.kind == "loop":
+            # a search `for m in self.verified_peers: if m == who: break` that ran to exhaustion: who is not a member
+            return lab is False and isinstance(u.ast, (ast.For, ast.AsyncFor)) and "self.verified_peers" in _denotes(fi, _unwrap(u.ast.iter)) \
+                and _loop_forall(ctx, fi, u.ast, differs)
+        if u.kind != "cond":
+            return False
+        f = fact_of(u.ast, lab)
+        return f.op == "in" and not f.pos and same_resolved(fi, f.left, who) and "self.verified_peers" in _denotes(fi, _unwrap(f.right))
+    return bool(rem) and cfg.exit not in cfg.reach(cut_nodes=rem, cut_edge=absent, follow_exc=False)
+
+
+def _one(got: set) -> str:
+    return next(iter(got)) if len(got) == 1 else "other"
+
+
+def _elements_origin(ctx: Ctx, net, fi: FuncInfo, it: ast.AST, who: ast.AST | None, depth: int = 3) -> str:
+    """where the ELEMENTS of an iterable expression of fi come from: see _key_origin"""
+    w = chain(who) if who is not None else None
+    it = _unwrap(it)
+    if isinstance(it, _COMPS):
+        return _elements_origin(ctx, net, fi, it.generators[0].iter, who, depth)       # a filter / projection of what it ranges over
+    if isinstance(it, ast.Name) and it.id not in fi.params() and depth > 0:
+        return _one({_elements_origin(ctx, net, fi, v, who, depth - 1) if v is not None else "other" for v in _bound_values(fi, it)} or {"other"})
+    if isinstance(it, ast.Call) and depth > 0:
+        ts = _call_targets(net, fi, it)
+        if ts:          # a generator / list helper of Network: where do the elements it yields / returns come from
+            got = set()
+            for t in ts:
+                w2 = _bind(fi, it, t, who)
+                for n in walk_no_nested(t.node):
+                    if isinstance(n, ast.Yield) and n.value is not None:
+                        got.add(_key_origin(ctx, net, t, n.value, w2, depth - 1))
+                    elif isinstance(n, (ast.YieldFrom, ast.Return)) and n.value is not None:
+                        got.add(_elements_origin(ctx, net, t, n.value, w2, depth - 1))
+            return _one(got or {"other"})
+    if mentions(it, "self.reverse_ip_lookup"):
+        return "cache"
+    if w is not None and (mentions(it, f"{w}.addresses") or mentions(it, f"{w}.address")):
+        return "peer-addresses"
+    return "other"
+
+
+def _key_origin(ctx: Ctx, net, fi: FuncInfo, key: ast.AST, who: ast.AST | None, depth: int = 3) -> str:
+    """
+    Where does a cache key used in fi come from: "cache" (drawn from self.reverse_ip_lookup itself: its keys / items, possibly filtered),
+    "peer-addresses" (drawn from <who>.addresses / <who>.address, the addresses of the peer object `who`) or "other" (anything else /
+    not the same for all definitions).
+    """
+    w = chain(who) if who is not None else None
+    key = strip_cast(key)
+    while isinstance(key, (ast.Subscript, ast.Attribute)) and not (w is not None and chain(key) == f"{w}.address"):
+        key = strip_cast(key.value)         # an element / field of a loop variable (`entry[0]` of items())
+    if w is not None and chain(key) == f"{w}.address":
+        return "peer-addresses"
+    if not isinstance(key, ast.Name) or key.id in fi.params() or depth <= 0:
+        return "other"
+    got = set()
+    for a_ in ancestors(key):
+        if isinstance(a_, _COMPS):
+            for g in a_.generators:
+                if any(isinstance(x, ast.Name) and x.id == key.id for x in ast.walk(g.target)):
+                    got.add(_elements_origin(ctx, net, fi, g.iter, who, depth))
+        if a_ is fi.node:
+            break
+    if not got:
+        for st, v, _idx in local_defs(fi, key.id):
+            if v is None and isinstance(st, (ast.For, ast.AsyncFor)):
+                got.add(_elements_origin(ctx, net, fi, st.iter, who, depth))
+            elif v is not None:
+                got.add(_key_origin(ctx, net, fi, v, who, depth - 1))
+            else:
+                got.add("other")
+    return _one(got or {"other"})
 
 
 def rule_removal(ctx: Ctx) -> None:
@@ -929,7 +1994,7 @@ def rule_removal(ctx: Ctx) -> None:
     net = ctx.repo.cls("Network", NW)
     ra = net.methods["remove_by_address"]
     cfg = ctx.cfg(ra)
-    scans = _scans_verified(ctx, net, ra)
+    scans = _scans_verified(ctx, net, ra, 2)
 
     def empty(u, v, lab):       # `if not self.verified_peers: return` - nothing to scan
         if u.kind != "cond" or lab not in (True, False):
@@ -941,18 +2006,7 @@ def rule_removal(ctx: Ctx) -> None:
               "remove_by_address can return without looking at the verified peers (e.g. because the address is not a key of _all_addresses, which is "
               "not an index of the verified peers' addresses): a verified peer that uses the address stays verified and is still returned by every lookup")
     rp = net.methods["remove_peer"]
-    cfg = ctx.cfg(rp)
-    who = rp.params()[1]
-    rem = [n for c in calls(rp, ["self.verified_peers.remove", "self.verified_peers.discard"]) if _is_name(resolve(rp, arg(c, 0)), who) for n in cfg.nodes_for(c)]
-    rem += [n for fi2, coll, kind, node in mutation_sites(ctx) if fi2 is rp and coll == "verified_peers" and kind == "remove" and not isinstance(node, ast.Call)
-            for n in cfg.nodes_for(node)]
-
-    def absent(u, v, lab):
-        if u.kind != "cond" or lab not in (True, False):
-            return False
-        f = fact_of(u.ast, lab)
-        return f.op == "in" and not f.pos and _is_name(resolve(rp, f.left), who) and chain(_unwrap(f.right)) == "self.verified_peers"
-    ok = bool(rem) and cfg.exit not in cfg.reach(cut_nodes=rem, cut_edge=absent, follow_exc=False)
+    ok = _removes_member(ctx, net, rp, ast.Name(id=rp.params()[1], ctx=ast.Load()))
     ctx.check(ok, "removal", rp, rp.node, "remove_peer takes the peer out of verified_peers on every path (unless it is not a member)",
               "remove_peer can return while the peer is still in verified_peers: the removed peer is still returned by lookups")
     # instance coherence (defect fixed by 97dc48d): the readers of reverse_ip_lookup / reverse_service_lookup re-validate a cached Peer by
@@ -973,7 +2027,8 @@ def rule_removal(ctx: Ctx) -> None:
         """`for cache in self.<index>.values(): cache.remove(..)` (also .items(), also in a Network helper fi calls)"""
         for loop in [n for n in walk_no_nested(fi.node) if isinstance(n, (ast.For, ast.AsyncFor))]:
             it = _unwrap(loop.iter)
-            if isinstance(it, ast.Call) and isinstance(it.func, ast.Attribute) and it.func.attr in ("values", "items") and chain(it.func.value) == f"self.{index}":
+            if (isinstance(it, ast.Call) and isinstance(it.func, ast.Attribute) and it.func.attr in ("values", "items") and chain(it.func.value) == f"self.{index}") \
+                    or (isinstance(loop.target, ast.Name) and _yields_entries(fi, it, index, ctx)):
                 names = {x.id for x in ast.walk(loop.target) if isinstance(x, ast.Name)}
                 for c in ast.walk(loop):
                     if isinstance(c, ast.Call) and isinstance(c.func, ast.Attribute) and c.func.attr in ("remove", "discard", "pop", "clear") \
@@ -983,13 +2038,33 @@ def rule_removal(ctx: Ctx) -> None:
                         return True
         if depth > 0 and fi.cls is not None:
             for c in calls(fi):
-                ch = chain(c.func) or ""
-                if ch.startswith("self.") and ch.count(".") == 1:
-                    t = fi.cls.methods.get(call_name(c))
-                    if t is not None and t.node is not fi.node and prunes_values(t, index, depth - 1):
-                        return True
+                if any(prunes_values(t, index, depth - 1) for t in _call_targets(fi.cls, fi, c)):
+                    return True
         return False
 
+    # ... and the purge of the address cache must not depend on the Peer OBJECT remove_peer was handed: that may be an equal (same
+    # public key) but different instance with other addresses than the verified one, so entries looked up by ITS addresses miss the
+    # entry the verified instance is cached under.  Decided positively only: every purge of reverse_ip_lookup reachable from
+    # remove_peer takes its keys from the passed peer's own addresses and none scans the cache itself (by value) / clears it.
+    if not validates_identity("reverse_ip_lookup"):
+        def ip_purges(f: FuncInfo):
+            return [n for n, op, _r, _k in _coll_ops(f, "reverse_ip_lookup") if op in ("pop", "__delitem__", "del[]", "clear", "rebind", "popitem")]
+        origins = []
+        for frames in _reach_sites(ctx, net, rp, ip_purges):
+            f, n = frames[-1]
+            who = _who_down(frames, ast.Name(id=rp.params()[1], ctx=ast.Load()))[-1]
+            op, key = next((o, k) for n2, o, _r, k in _coll_ops(f, "reverse_ip_lookup") if n2 is n)
+            origins.append((f, n, "cache" if op in ("clear", "rebind", "popitem") or key is None else _key_origin(ctx, net, f, key, who)))
+        if origins and all(o == "peer-addresses" for _f, _n, o in origins):
+            f, n, _o = origins[0]
+            ctx.check(False, "removal", f, n, f"{f.name}: the removed peer is forgotten in reverse_ip_lookup by scanning the cache, not by the passed object's addresses",
+                      f"{f.name} (reached from remove_peer) only drops the reverse_ip_lookup entries keyed by the addresses of the Peer object it was handed "
+                      f"(`{norm(n)[:60]}`): remove_peer may be called with an equal Peer (same public key) that is another instance with other addresses than the "
+                      "verified one, whose cache entry then survives; after the identity is verified again the stale entry passes the reader's validation "
+                      "(membership is by public key, the old instance still lists the old address) and lookup by address returns a removed Peer instance")
+        elif origins:
+            ctx.instance("removal", rp.where, "remove_peer: reverse_ip_lookup is purged independently of the passed Peer object's addresses ("
+                         + ", ".join(dict.fromkeys(o for _f, _n, o in origins)) + ")")
     for index in ("reverse_ip_lookup", "reverse_service_lookup"):
         for fi in (ra, rp):
             ok = _updates_index(ctx, fi, index) or prunes_values(fi, index) or validates_identity(index)
@@ -1032,36 +2107,105 @@ def _iteration_of(ctx: Ctx, fi: FuncInfo, node: ast.AST):
     return None
 
 
+_NULL_ADDRESS = ("0.0.0.0", 0)
+
+
+def _innermost_loop(fi: FuncInfo, node: ast.AST):
+    for a_ in ancestors(node):
+        if isinstance(a_, (ast.For, ast.AsyncFor)):
+            return a_
+        if isinstance(a_, _COMPS) or a_ is fi.node:
+            return None
+    return None
+
+
+def _snapshot_stream(ctx: Ctx, net, fi: FuncInfo, node: ast.AST, value: ast.AST, depth: int = 2) -> tuple[bool, bool, list]:
+    """
+    `node` (the pack call / a yield / a comprehension element) handles `value` once per element of the innermost iteration around it.
+    -> (value is the address of every verified peer, elements are skipped only for being a null address, facts shown).
+    The iteration runs over self.verified_peers (value: <peer>.address) or over a stream of the verified peers' addresses that a
+    comprehension / a generator method of Network produced under the same conditions (value: the element).
+    """
+    it = _iteration_of(ctx, fi, node)
+    if it is None or not isinstance(it[0], ast.Name):
+        return False, False, []
+    tv, src, fs = it[0].id, it[1], it[2]
+    if _resolves_to(fi, _unwrap(src), lambda y: _verified_members(fi, y)):
+        def is_val(x):
+            return _resolves_to(fi, x, lambda y: chain(y) == f"{tv}.address")
+    elif depth > 0 and _address_source(ctx, net, fi, src, depth - 1):
+        def is_val(x):
+            return _resolves_to(fi, x, lambda y: _is_name(y, tv))
+    else:
+        return False, False, fs
+    loop = _innermost_loop(fi, node)
+    whole = loop is None or _exhaustive(ctx.cfg(fi), loop)      # a break / return out of the loop drops the remaining peers
+    allowed = all((f.op == "truthy" and f.pos and is_val(f.left)) or
+                  (f.op == "eq" and not f.pos and ((const_value(f.right) == _NULL_ADDRESS and is_val(f.left))
+                                                   or (const_value(f.left) == _NULL_ADDRESS and is_val(f.right)))) for f in fs)
+    return is_val(value) and whole, allowed, fs
+
+
+def _address_source(ctx: Ctx, net, fi: FuncInfo, src: ast.AST, depth: int) -> bool:
+    """the iterable yields the address of every verified peer, skipping only null addresses"""
+    def one(y):
+        y = _unwrap(y)
+        if isinstance(y, (ast.ListComp, ast.SetComp, ast.GeneratorExp)) and len(y.generators) == 1:
+            ok, allowed, _fs = _snapshot_stream(ctx, net, fi, y.elt, y.elt, depth)
+            return ok and allowed
+        if isinstance(y, ast.Call):
+            ts = _call_targets(net, fi, y)
+            return bool(ts) and all(_yields_addresses(ctx, net, t, depth) for t in ts)
+        return False
+    return _resolves_to(fi, src, one)
+
+
+def _yields_addresses(ctx: Ctx, net, t: FuncInfo, depth: int) -> bool:
+    """generator method t yields the address of every verified peer, skipping only null addresses"""
+    ys = [n for n in walk_no_nested(t.node) if isinstance(n, (ast.Yield, ast.YieldFrom))]
+    if not ys or any(isinstance(n, ast.Return) and n.value is not None for n in walk_no_nested(t.node)):
+        return False
+    cfg = ctx.cfg(t)
+    for y in ys:
+        if isinstance(y, ast.YieldFrom):
+            if _innermost_loop(t, y) is not None or facts_at(cfg, y) or not _address_source(ctx, net, t, y.value, depth):
+                return False
+        else:
+            ok, allowed, _fs = _snapshot_stream(ctx, net, t, y, y.value, depth) if y.value is not None else (False, False, [])
+            if not (ok and allowed):
+                return False
+    return True
+
+
 def rule_snapshot_codec(ctx: Ctx) -> None:
     net = ctx.repo.cls("Network", NW)
     sn, ld = net.methods["snapshot"], net.methods["load_snapshot"]
-    packs = [c for c in calls(sn) if call_name(c) == "pack"]
-    unpacks = [c for c in calls(ld) if call_name(c) == "unpack"]
-    ok = len(packs) == 1 and len(unpacks) == 1 and const_value(resolve(sn, arg(packs[0], 0))) == const_value(resolve(ld, arg(unpacks[0], 0))) == "address" \
-        and (rchain(sn, packs[0].func) or "?")[:-len("pack")] == (rchain(ld, unpacks[0].func) or "??")[:-len("unpack")]
+    # the pack / unpack call may live in a private helper (e.g. a generator that yields the packed entries)
+    packs = [fr[-1] for fr in _reach_sites(ctx, net, sn, lambda f: [c for c in calls(f) if call_name(c) == "pack"])]
+    unpacks = [fr[-1] for fr in _reach_sites(ctx, net, ld, lambda f: [c for c in calls(f) if call_name(c) == "unpack"])]
+    ok = len(packs) == 1 and len(unpacks) == 1 \
+        and const_value(resolve(packs[0][0], arg(packs[0][1], 0))) == const_value(resolve(unpacks[0][0], arg(unpacks[0][1], 0))) == "address" \
+        and (rchain(packs[0][0], packs[0][1].func) or "?")[:-len("pack")] == (rchain(unpacks[0][0], unpacks[0][1].func) or "??")[:-len("unpack")]
     ctx.check(ok, "snapshot-codec", sn, sn.node, "snapshot packs and load_snapshot unpacks with the same packer ('address') of the same serializer",
               "snapshot and load_snapshot use different formats")
     if packs:
-        it = _iteration_of(ctx, sn, packs[0])
-        ok = allowed = False
-        fs = []
-        if it is not None and isinstance(it[0], ast.Name):
-            tv, src, fs = it[0].id, it[1], it[2]
-
-            def is_addr(x):
-                return _resolves_to(sn, x, lambda y: chain(y) == f"{tv}.address")
-            ok = _resolves_to(sn, _unwrap(src), lambda y: chain(_unwrap(y)) == "self.verified_peers") and is_addr(arg(packs[0], 1))
-            allowed = all((f.op == "truthy" and f.pos and is_addr(f.left)) or
-                          (f.op == "eq" and not f.pos and ((const_value(f.right) == ("0.0.0.0", 0) and is_addr(f.left))
-                                                           or (const_value(f.left) == ("0.0.0.0", 0) and is_addr(f.right)))) for f in fs)
-        ctx.check(ok and allowed, "snapshot-codec", sn, packs[0], "every verified peer's address is written, skipping only null addresses",
+        pf, pc = packs[0]
+        ok, allowed, fs = _snapshot_stream(ctx, net, pf, pc, arg(pc, 1))
+        ctx.check(ok and allowed, "snapshot-codec", pf, pc, "every verified peer's address is written, skipping only null addresses",
                   "snapshot skips verified peers for a reason other than a null address", [str(f) for f in fs])
-    sts = [s for s, t in stores(ld, "self._all_addresses[]") if isinstance(s, ast.Assign)]
-    ok = bool(sts) and all(_neutral_entry(ld, s.value) for s in sts)
+
+    def adds_of(f: FuncInfo):
+        return [n for n, op, _r, _k in _coll_ops(f, "_all_addresses") if op in _ADD_OPS or (op == "aug" and isinstance(n.op, ast.BitOr))]
+    added = [fr[-1] for fr in _reach_sites(ctx, net, ld, adds_of)]
+    ok = bool(added)
+    for f, n in added:
+        op = next(o for n2, o, _r, _k in _coll_ops(f, "_all_addresses") if n2 is n)
+        vals = _added_entries(f, n, op)
+        ok = ok and bool(vals) and all(_neutral_entry(f, v) for v in vals)
     ctx.check(ok, "snapshot-codec", ld, ld.node, "load_snapshot inserts neutral WalkableAddress(b'', None, False) entries",
               "load_snapshot inserts addresses with a made-up introducer / service")
-    ctx.check(not any(c for c in calls(ld) if chain(c.func) in ("self.verified_peers.add", "self.add_verified_peer")), "snapshot-codec", ld, ld.node,
-              "load_snapshot makes addresses walkable, not verified", "load_snapshot creates verified peers")
+    grows = _reach_sites(ctx, net, ld, lambda f: _grow_nodes(f) + [c for c in calls(f) if any(t.name == "add_verified_peer" for t in _call_targets(net, f, c))])
+    ctx.check(not grows, "snapshot-codec", ld, ld.node, "load_snapshot makes addresses walkable, not verified", "load_snapshot creates verified peers")
 
 
 def rule_external_writers(ctx: Ctx) -> None:
@@ -1085,7 +2229,8 @@ def rule_external_writers(ctx: Ctx) -> None:
 
 def _peer_source(fi: FuncInfo, e: ast.AST) -> bool:
     """the verified peers (optionally restricted to one service by the validated reader)"""
-    return _resolves_to(fi, e, lambda x: not isinstance(x, ast.Name) and (mentions(x, "self.verified_peers") or mentions(x, "self.get_peers_for_service")))
+    return _resolves_to(fi, e, lambda x: not isinstance(x, ast.Name) and (mentions(x, "self.verified_peers") or mentions(x, "self.get_peers_for_service")
+                                                                          or _verified_members(fi, x)))
 
 
 def _addr_values(fi: FuncInfo, e: ast.AST, p: str) -> bool:
@@ -1093,15 +2238,27 @@ def _addr_values(fi: FuncInfo, e: ast.AST, p: str) -> bool:
     return _resolves_to(fi, _unwrap(e), lambda x: isinstance(_unwrap(x), ast.Call) and chain(_unwrap(x).func) == f"{p}.addresses.values")
 
 
-def _every_iteration(cfg, loop: ast.For, nodes) -> bool:
-    """every iteration of `loop` that completes normally executes one of `nodes` (no continue / break / return / condition around it)"""
+def _addr_iteration(fi: FuncInfo, target: ast.AST, it: ast.AST, p: str) -> str | None:
+    """`for <target> in <it>` ranges over EVERY address of peer p: the name bound to the address, else None
+    (for a in p.addresses.values();  for _interface, a in p.addresses.items())"""
+    if isinstance(target, ast.Name):
+        return target.id if _addr_values(fi, it, p) else None
+    if isinstance(target, (ast.Tuple, ast.List)) and len(target.elts) == 2 and isinstance(target.elts[1], ast.Name):
+        ok = _resolves_to(fi, _unwrap(it), lambda x: isinstance(_unwrap(x), ast.Call) and chain(_unwrap(x).func) == f"{p}.addresses.items")
+        return target.elts[1].id if ok else None
+    return None
+
+
+def _every_iteration(cfg, loop: ast.For, nodes, cut_edge=None) -> bool:
+    """every iteration of `loop` that completes normally executes one of `nodes` (no continue / break / return / condition around it,
+    other than condition outcomes accepted by cut_edge: "nothing to do for this element")"""
     heads = cfg.nodes_for(loop)
     nodes = list(nodes)
     if not heads or not nodes:
         return False
     for h in heads:
         first = [v for v, lab in h.succ if lab is True]
-        r = cfg.reach(first, cut_nodes=nodes, follow_exc=False)
+        r = cfg.reach(first, cut_nodes=nodes, cut_edge=cut_edge, follow_exc=False)
         if h in r or cfg.exit in r:
             return False
     return True
@@ -1118,15 +2275,42 @@ def _exhaustive(cfg, loop: ast.For) -> bool:
     return True
 
 
-def _all_addresses_of(ctx: Ctx, fi: FuncInfo, e: ast.AST, depth: int = 3) -> tuple[bool, str]:
-    """Does e hold EVERY address (peer.addresses.values()) of every peer of the verified-peer source?"""
+def _collecting_loop(ctx: Ctx, fi: FuncInfo, source, gives_all, gives_one):
+    """
+    A loop over the verified-peer source that hands ALL of <peer>.addresses.values() to a sink in every iteration and runs to exhaustion:
+    gives_all(node, addresses-predicate) / gives_one(node, element name) recognise the nodes that hand a whole collection / one element
+    to the sink (accumulator.extend / += / `yield from`;  accumulator.append / `yield`).  -> the loop or None
+    """
+    cfg = ctx.cfg(fi)
+    for loop in [n for n in walk_no_nested(fi.node) if isinstance(n, (ast.For, ast.AsyncFor)) and isinstance(n.target, ast.Name) and source(n.iter)]:
+        p = loop.target.id
+        adders = []
+        for n in [x for st in loop.body for x in walk_no_nested(st)]:
+            if gives_all(n, lambda v, p=p: _addr_values(fi, v, p)):
+                adders += cfg.nodes_for(n)
+            elif isinstance(n, (ast.For, ast.AsyncFor)) and _addr_iteration(fi, n.target, n.iter, p):
+                a_name = _addr_iteration(fi, n.target, n.iter, p)
+                inner = [m for st in n.body for x in walk_no_nested(st) if gives_one(x, a_name) for m in cfg.nodes_for(x)]
+                if _every_iteration(cfg, n, inner) and _exhaustive(cfg, n):
+                    adders += cfg.nodes_for(n)
+        if _every_iteration(cfg, loop, adders) and _exhaustive(cfg, loop):
+            return loop
+    return None
+
+
+def _all_addresses_of(ctx: Ctx, fi: FuncInfo, e: ast.AST, depth: int = 3, source=None) -> tuple[bool, str]:
+    """Does e hold EVERY address (peer.addresses.values()) of every peer of the verified-peer source?  source(expr): expr is that source
+    (default: mentions self.verified_peers / the validated per-service reader; inside a followed helper also the parameter bound to it)"""
+    if source is None:
+        def source(x):
+            return _peer_source(fi, x)
     e = _unwrap(e)
     if isinstance(e, (ast.ListComp, ast.SetComp, ast.GeneratorExp)):
         gens = e.generators
-        if any(g.ifs for g in gens) or not isinstance(gens[0].target, ast.Name) or not _peer_source(fi, gens[0].iter):
+        if any(g.ifs for g in gens) or not isinstance(gens[0].target, ast.Name) or not source(gens[0].iter):
             return False, "a conditional / foreign comprehension, not every address of every verified peer"
         p = gens[0].target.id
-        if len(gens) == 2 and isinstance(gens[1].target, ast.Name) and _addr_values(fi, gens[1].iter, p) and _is_name(e.elt, gens[1].target.id):
+        if len(gens) == 2 and _addr_iteration(fi, gens[1].target, gens[1].iter, p) and _is_name(e.elt, _addr_iteration(fi, gens[1].target, gens[1].iter, p)):
             return True, f"every address of every peer (`{norm(e)[:70]}`)"
         return False, f"built from `{norm(e.elt)[:40]}` per verified peer, not from all of {p}.addresses.values()"
     if isinstance(e, ast.Call):
@@ -1138,10 +2322,25 @@ def _all_addresses_of(ctx: Ctx, fi: FuncInfo, e: ast.AST, depth: int = 3) -> tup
             inner = e.args[0].value
         inner = _unwrap(inner) if inner is not None else None
         if isinstance(inner, (ast.ListComp, ast.SetComp, ast.GeneratorExp)) and len(inner.generators) == 1 and not inner.generators[0].ifs \
-                and isinstance(inner.generators[0].target, ast.Name) and _peer_source(fi, inner.generators[0].iter) \
+                and isinstance(inner.generators[0].target, ast.Name) and source(inner.generators[0].iter) \
                 and _addr_values(fi, inner.elt, inner.generators[0].target.id):
             return True, f"every address of every peer (`{norm(e)[:70]}`)"
+        # one of Network's own methods computes the collection (a generator cannot be inlined): analyse it with its parameters bound
+        net = ctx.repo.cls("Network", NW)
+        ts = _call_targets(net, fi, e) if depth > 0 else []
+        if ts:
+            res = [_helper_collects(ctx, fi, e, t, source, depth - 1) for t in ts]
+            bad = [r for r in res if not r[0]]
+            return (False, bad[0][1]) if bad else (True, res[0][1])
         return False, "not recognisably every address of every verified peer"
+    if isinstance(e, ast.Name) and e.id in _params_of(fi) and depth > 0 and _is_private(fi) and fi.cls is not None and not local_defs(fi, e.id):
+        # a parameter of a private helper: what every caller passes for it
+        sites = _internal_call_sites(ctx, fi.cls, fi)
+        if sites:
+            res = [_all_addresses_of(ctx, caller, a_, depth - 1) if a_ is not None else (False, f"{fi.name} is called without `{e.id}`")
+                   for caller, a_ in ((caller, _arg_for(c, fi, e.id)) for caller, c in sites)]
+            bad = [r for r in res if not r[0]]
+            return (False, bad[0][1]) if bad else (True, res[0][1])
     if isinstance(e, ast.Name) and e.id not in fi.params() and depth > 0:
         defs = [(st, v) for st, v, idx in local_defs(fi, e.id) if not isinstance(st, ast.AugAssign)]
         if not defs or any(v is None for _, v in defs):
@@ -1149,31 +2348,56 @@ def _all_addresses_of(ctx: Ctx, fi: FuncInfo, e: ast.AST, depth: int = 3) -> tup
         empty = [(st, v) for st, v in defs if (isinstance(strip_cast(v), (ast.List, ast.Set, ast.Tuple)) and not strip_cast(v).elts)
                  or (isinstance(strip_cast(v), ast.Call) and chain(strip_cast(v).func) in ("set", "list") and not strip_cast(v).args)]
         if len(empty) < len(defs):
-            res = [_all_addresses_of(ctx, fi, v, depth - 1) for _, v in defs]
+            res = [_all_addresses_of(ctx, fi, v, depth - 1, source) for _, v in defs]
             bad = [r for r in res if not r[0]]
             return (False, bad[0][1]) if bad else (True, res[0][1])
         # accumulator: filled by a loop over the verified peers that adds all addresses of each peer in every iteration
-        cfg = ctx.cfg(fi)
         s_ = e.id
-        for loop in [n for n in walk_no_nested(fi.node) if isinstance(n, (ast.For, ast.AsyncFor)) and isinstance(n.target, ast.Name) and _peer_source(fi, n.iter)]:
-            p = loop.target.id
-            adders = []
-            for n in [x for st in loop.body for x in walk_no_nested(st)]:
-                if isinstance(n, ast.Call) and isinstance(n.func, ast.Attribute) and _is_name(n.func.value, s_) and n.func.attr in ("extend", "update") \
-                        and len(n.args) == 1 and _addr_values(fi, n.args[0], p):
-                    adders += cfg.nodes_for(n)
-                elif isinstance(n, ast.AugAssign) and _is_name(n.target, s_) and isinstance(n.op, (ast.Add, ast.BitOr)) and _addr_values(fi, n.value, p):
-                    adders += cfg.nodes_for(n)
-                elif isinstance(n, (ast.For, ast.AsyncFor)) and isinstance(n.target, ast.Name) and _addr_values(fi, n.iter, p):
-                    inner = [m for st in n.body for x in walk_no_nested(st) if isinstance(x, ast.Call) and isinstance(x.func, ast.Attribute)
-                             and _is_name(x.func.value, s_) and x.func.attr in ("append", "add") and len(x.args) == 1 and _is_name(x.args[0], n.target.id)
-                             for m in cfg.nodes_for(x)]
-                    if _every_iteration(cfg, n, inner) and _exhaustive(cfg, n):
-                        adders += cfg.nodes_for(n)
-            if _every_iteration(cfg, loop, adders) and _exhaustive(cfg, loop):
-                return True, f"filled with {p}.addresses.values() for every peer of `{norm(loop.iter)[:40]}`"
+
+        def gives_all(n, is_addresses):
+            if isinstance(n, ast.Call) and isinstance(n.func, ast.Attribute) and _is_name(n.func.value, s_) and n.func.attr in ("extend", "update") \
+                    and len(n.args) == 1:
+                return is_addresses(n.args[0])
+            return isinstance(n, ast.AugAssign) and _is_name(n.target, s_) and isinstance(n.op, (ast.Add, ast.BitOr)) and is_addresses(n.value)
+
+        def gives_one(n, x):
+            return isinstance(n, ast.Call) and isinstance(n.func, ast.Attribute) and _is_name(n.func.value, s_) and n.func.attr in ("append", "add") \
+                and len(n.args) == 1 and _is_name(n.args[0], x)
+        loop = _collecting_loop(ctx, fi, source, gives_all, gives_one)
+        if loop is not None:
+            return True, f"filled with {loop.target.id}.addresses.values() for every peer of `{norm(loop.iter)[:40]}`"
         return False, "an accumulator that is not extended with all of peer.addresses.values() for every verified peer"
     return False, "not recognisably every address of every verified peer"
+
+
+def _helper_collects(ctx: Ctx, fi: FuncInfo, call: ast.Call, t: FuncInfo, source, depth: int) -> tuple[bool, str]:
+    """method t, called with the caller's verified-peer source bound to its parameters, returns / yields every address of every such peer"""
+    params = _params_of(t)
+    pairs = [(params[i], a_) for i, a_ in enumerate(call.args) if i < len(params) and not isinstance(a_, ast.Starred)] + \
+            [(k.arg, k.value) for k in call.keywords if k.arg]
+    bound = {p_ for p_, a_ in pairs if source(a_)}
+
+    def tsource(x):
+        return _resolves_to(t, x, lambda y: isinstance(strip_cast(y), ast.Name) and strip_cast(y).id in bound) or _peer_source(t, x)
+    if any(isinstance(n, (ast.Yield, ast.YieldFrom)) for n in walk_no_nested(t.node)):
+        if any(isinstance(n, ast.Return) and n.value is not None for n in walk_no_nested(t.node)):
+            return False, f"{t.name} is a generator that also returns a value"
+
+        def gives_all(n, is_addresses):
+            return isinstance(n, ast.YieldFrom) and is_addresses(n.value)
+
+        def gives_one(n, x):
+            return isinstance(n, ast.Yield) and n.value is not None and _is_name(n.value, x)
+        loop = _collecting_loop(ctx, t, tsource, gives_all, gives_one)
+        if loop is not None:
+            return True, f"{t.name} yields {loop.target.id}.addresses.values() for every peer of `{norm(loop.iter)[:40]}`"
+        return False, f"{t.name} does not yield all of peer.addresses.values() for every verified peer"
+    rets = [n for n in walk_no_nested(t.node) if isinstance(n, ast.Return) and n.value is not None]
+    if not rets:
+        return False, f"{t.name} returns nothing"
+    res = [_all_addresses_of(ctx, t, r.value, depth, tsource) for r in rets]
+    bad = [r for r in res if not r[0]]
+    return (False, bad[0][1]) if bad else (True, res[0][1])
 
 
 def _subtrahends(ctx: Ctx, fi: FuncInfo) -> list[tuple[ast.AST, ast.AST]]:
@@ -1198,8 +2422,9 @@ def _subtrahends(ctx: Ctx, fi: FuncInfo) -> list[tuple[ast.AST, ast.AST]]:
         elif isinstance(n, (ast.For, ast.AsyncFor)) and isinstance(n.target, ast.Name) and known(n.iter):
             cfg = ctx.cfg(fi)
             seen = set()
-            for c in [x for st in n.body for x in walk_no_nested(st) if isinstance(x, ast.Call) and call_name(x) in ("append", "add")
-                      and len(x.args) == 1 and _is_name(x.args[0], n.target.id)]:
+            for c in [x for st in n.body for x in walk_no_nested(st)
+                      if (isinstance(x, ast.Call) and call_name(x) in ("append", "add") and len(x.args) == 1 and _is_name(x.args[0], n.target.id))
+                      or (isinstance(x, ast.Yield) and x.value is not None and _is_name(x.value, n.target.id))]:
                 for f in facts_at(cfg, c):
                     if f.op == "in" and not f.pos and _is_name(f.left, n.target.id) and id(f.atom) not in seen:
                         seen.add(id(f.atom))
@@ -1222,12 +2447,42 @@ def _marks_dirty(ctx: Ctx, dd, f: FuncInfo, depth: int = 1) -> bool:
     return bool(sets) and cfg.exit not in cfg.reach(cut_nodes=sets, follow_exc=False)
 
 
+def _dirtying_factory(ctx: Ctx, dd, ref: ast.AST) -> bool:
+    """`ref` names a function (module level of peer.py, or a static / plain function in DirtyDict's body) that returns a nested wrapper
+    function whose every normally completing path sets `<its first parameter>.dirty = True`"""
+    from ..cfg import CFG
+    name = ref.id if isinstance(ref, ast.Name) else ref.attr if isinstance(ref, ast.Attribute) else None
+    if name is None:
+        return False
+    cands = [f.node for f in dd.module.all_functions if f.name == name and (f.cls is None or f.cls is dd)]
+    for g in cands:
+        for w in [x for x in ast.walk(g) if isinstance(x, (ast.FunctionDef, ast.AsyncFunctionDef)) and x is not g]:
+            returned = any(isinstance(r, ast.Return) and r.value is not None and any(isinstance(x, ast.Name) and x.id == w.name for x in ast.walk(r.value))
+                           for r in walk_no_nested(g))
+            params = [a_.arg for a_ in w.args.posonlyargs + w.args.args]
+            if not returned or not params:
+                continue
+            cfg = CFG(w)
+            sets = [x for s_ in walk_no_nested(w) if isinstance(s_, (ast.Assign, ast.AnnAssign)) and s_.value is not None
+                    and any(chain(t) == f"{params[0]}.dirty" for t in (s_.targets if isinstance(s_, ast.Assign) else [s_.target])) and const_value(s_.value) is True
+                    for x in cfg.nodes_for(s_)]
+            if sets and cfg.exit not in cfg.reach(cut_nodes=sets, follow_exc=False):
+                return True
+    return False
+
+
 def rule_walkable_and_peer(ctx: Ctx) -> None:
     repo = ctx.repo
     net = repo.cls("Network", NW)
     gw = net.methods["get_walkable_addresses"]
-    # walkable = all known addresses minus EVERY address of every verified peer
+    # walkable = all known addresses minus EVERY address of every verified peer (the subtraction may live in a private helper of the query)
+    gwf = gw
     subs = _subtrahends(ctx, gw)
+    if not subs:
+        for frames in _reach_sites(ctx, net, gw, lambda g: [g.node] if g is not gw and _subtrahends(ctx, g) else []):
+            gwf = frames[-1][0]
+            subs = _subtrahends(ctx, gwf)
+            break
     if not subs:
         collected = [n for n in walk_no_nested(gw.node) if (isinstance(n, (ast.ListComp, ast.SetComp, ast.GeneratorExp)) or
                                                             (isinstance(n, ast.Name) and isinstance(n.ctx, ast.Store))) and _all_addresses_of(ctx, gw, n)[0]]
@@ -1237,7 +2492,7 @@ def rule_walkable_and_peer(ctx: Ctx) -> None:
         ctx.check(False, "coherence", gw, gw.node, "walkable addresses = all known addresses minus peer.addresses.values() of every verified peer",
                   "get_walkable_addresses never removes the verified peers' addresses from the known addresses: addresses of verified peers are reported walkable")
     if subs:
-        res = [(sub, *_all_addresses_of(ctx, gw, sub)) for node, sub in subs]
+        res = [(sub, *_all_addresses_of(ctx, gwf, sub)) for node, sub in subs]
         good = [r for r in res if r[1]]
         sub, ok, how = good[0] if good else res[0]
         ctx.check(ok, "coherence", gw, gw.node, "walkable addresses = all known addresses minus peer.addresses.values() of every verified peer",
@@ -1249,9 +2504,16 @@ def rule_walkable_and_peer(ctx: Ctx) -> None:
     for name in ("__setitem__", "update", "clear", "pop", "popitem", "__delitem__", "setdefault"):
         f = dd.methods.get(name)
         if f is None:
+            # the mutators merged into a factory: `pop = _dirtying(dict.pop)` at class level, the wrapper sets the flag on every path
+            v = dd.attrs.get(name)
+            if isinstance(v, ast.Call) and _dirtying_factory(ctx, dd, v.func):
+                n += 1
+                ctx.instance("coherence", dd.where, f"DirtyDict.{name} is produced by a wrapper factory that marks the address dict dirty on every path")
+            elif v is not None:
+                raise AnalysisError(f"undecided: DirtyDict.{name} is bound at class level to `{norm(v)[:60]}`, not a method this rule can follow")
             continue
         n += 1
-        ok = _marks_dirty(ctx, dd, f)
+        ok = _marks_dirty(ctx, dd, f) or any(_dirtying_factory(ctx, dd, d.func if isinstance(d, ast.Call) else d) for d in f.node.decorator_list)
         ctx.check(ok, "coherence", f, f.node, f"DirtyDict.{name} marks the address dict dirty on every path",
                   f"DirtyDict.{name} can change the addresses without setting `dirty`: Peer.address keeps returning the stale preferred address, so lookups by the advertised "
                   "address and the snapshot disagree with the verified peer's real addresses")
@@ -1267,7 +2529,7 @@ def rule_walkable_and_peer(ctx: Ctx) -> None:
             cfg = None
             for c in [c for c in calls(f) if call_name(c) in ("append", "remove", "extend", "insert") and isinstance(c.func, ast.Attribute)]:
                 recv = c.func.value
-                if not _entry_of_index(f, recv, idx, ctx):
+                if not _entry_of_index(f, recv, idx, ctx, loops=call_name(c) != "remove"):
                     continue
                 v = norm(recv)
                 cfg = cfg or ctx.cfg(f)
@@ -1275,6 +2537,22 @@ def rule_walkable_and_peer(ctx: Ctx) -> None:
                 fs = facts_at(cfg, c)
                 truthy = any(f_.op == "truthy" and f_.pos and same_resolved(f, f_.left, recv) for f_ in fs)
                 notnone = any(f_.op == "is" and not f_.pos and same_resolved(f, f_.left, recv) and const_value(f_.right) is None for f_ in fs)
+                # the entry is a loop variable: the existence test is made where the entries are produced (self.<idx>.values(): they
+                # exist by construction; a generator method of Network: the facts that dominate its `yield <entry>`)
+                for st, v_, _i in (local_defs(f, recv.id) if isinstance(recv, ast.Name) else []):
+                    if v_ is None and isinstance(st, (ast.For, ast.AsyncFor)) and isinstance(st.target, ast.Name):
+                        sites = _yield_sites(f, st.iter, idx, ctx)
+                        if sites is None:
+                            notnone = notnone or _yields_entries(f, st.iter, idx, ctx)
+                            continue
+                        per = []
+                        for t_, y_, val_ in sites:
+                            yf = facts_at(ctx.cfg(t_), y_)
+                            fs = fs + yf
+                            per.append((any(g.op == "is" and not g.pos and same_resolved(t_, g.left, val_) and const_value(g.right) is None for g in yf),
+                                        any(g.op == "truthy" and g.pos and same_resolved(t_, g.left, val_) for g in yf)))
+                        notnone = notnone or (bool(per) and all(a_ for a_, _b in per))
+                        truthy = truthy or any(b_ for _a, b_ in per)
                 r_ = resolve(f, recv)
                 if isinstance(r_, ast.Subscript) and chain(r_.value) == f"self.{idx}":
                     # self.<idx>[k].append(x) under `k in self.<idx>`: the entry exists
@@ -1362,6 +2640,12 @@ WITNESSES = [
      "old": "out += default_serializer.pack(\"address\", peer.address)", "new": "out += default_serializer.pack(\"ip_address\", peer.address)"},
     {"name": "snapshot skips LAN peers", "file": NW, "rule": "snapshot-codec",
      "old": "if peer.address and peer.address != (\"0.0.0.0\", 0):", "new": "if peer.address and peer.address != (\"0.0.0.0\", 0) and not peer.address[0].startswith(\"192.168.\"):"},
+    {"name": "removed peer forgotten in the address cache only under the passed object's addresses (seeded C12-m8)", "file": NW, "rule": "removal",
+     "old": """        for address in [a for a, cached in self.reverse_ip_lookup.items() if cached == peer]:
+            self.reverse_ip_lookup.pop(address, None)""",
+     "new": """        for address in peer.addresses.values():
+            if self.reverse_ip_lookup.get(address) == peer:
+                del self.reverse_ip_lookup[address]"""},
     {"name": "external writer of verified_peers", "file": "ipv8/peerdiscovery/community.py", "rule": "external-writers",
      "old": "        self.network.add_verified_peer(node)\n        self.network.discover_services(node, payload.preference_list)",
      "new": "        self.network.verified_peers.add(node)\n        self.network.discover_services(node, payload.preference_list)"},
